@@ -3307,6 +3307,1052 @@ def extract_pyir_dil():
     return "\n".join(L) + "\n", len(all_done), all_bad
 # [dil] end -----------------------------------------------------------------
 
+# [deepConn] begin ----------------------------------------------------------
+# PyIR for the Dilation Connector (src/wormhole/_dilation/connector.py): a third generated module, WV/Gen/PyIRConn.lean.
+# `_PyIRConn` only ADDS cases to `_PyIRDil` (every override falls back to the base class).
+
+PYIR_CONN_TARGETS = [
+    ("wormhole._dilation.connector", "Connector",
+     ["_publish_hints", "_use_hints", "stop_listeners", "stop_pending_connectors", "stop_pending_connections",
+      "break_cycles", "start", "_schedule_connection", "_connect", "_start_listener", "_get_listener_addresses",
+      "build_protocol"]),
+]
+# module-level functions whose call is an EFFECT (recorded), not a pure external function
+_PYIR_CONN_EFFECTFUL = {"deferLater"}
+
+
+class _PyIRConn(_PyIRDil):
+    def __init__(self, module, klass, kinds, data_attrs, fn, attr_kinds):
+        self.module = module
+        self.klass = klass
+        self.kinds = kinds
+        self.data_attrs = data_attrs
+        self.attr_kinds = attr_kinds
+        self.fn = fn
+        a = fn.args
+        if a.kwarg or a.vararg or a.kwonlyargs or a.defaults or a.kw_defaults or a.posonlyargs:
+            raise _Untranslatable("parameter list with defaults/*args/**kwargs")
+        names = [x.arg for x in a.args]
+        if not names or names[0] != "self":
+            raise _Untranslatable("not an instance method")
+        self.params = names[1:]
+        self.locals = set(self.params)
+        self.stores = {}
+        for n in ast.walk(fn):
+            if isinstance(n, ast.Name) and isinstance(n.ctx, (ast.Store, ast.Del)):
+                self.locals.add(n.id)
+                self.stores[n.id] = self.stores.get(n.id, 0) + 1
+            if isinstance(n, (ast.FunctionDef, ast.AsyncFunctionDef)) and n is not fn:
+                raise _Untranslatable("nested function")
+            if isinstance(n, (ast.Yield, ast.YieldFrom)):
+                raise _Untranslatable("generator")
+            if isinstance(n, ast.ExceptHandler) and n.name:
+                self.locals.add(n.name)
+        self.match_vars = set()
+        self.ntemp = 0
+        self.sibling_calls = set()
+        self.assigned = set(self.params)
+
+    def singleton(self, n):
+        """a module-level name bound to an instance that compares by identity (roles.LEADER / FOLLOWER)"""
+        if isinstance(n, ast.Name) and n.id not in self.locals and hasattr(self.module, n.id):
+            obj = getattr(self.module, n.id)
+            if obj is not None and type(obj).__eq__ is object.__eq__ and not callable(obj) and not inspect.ismodule(obj) \
+                    and not inspect.isclass(obj):
+                return n.id
+        return None
+
+    def effect_comp(self, n):
+        """`[v.meth(args…) for v in self.<set or list attr>]` -> (var, attr node, meth, arg nodes) or None"""
+        if not (isinstance(n, ast.ListComp) and len(n.generators) == 1):
+            return None
+        g = n.generators[0]
+        e = n.elt
+        if g.ifs or g.is_async or not isinstance(g.target, ast.Name) or not self.is_self_attr(g.iter) \
+                or self.attr_kinds.get(g.iter.attr) not in ("set", "list"):
+            return None
+        v = g.target.id
+        if v in self.params or self.stores.get(v, 0) != 1:
+            return None      # the comprehension variable must not be visible as another local
+        if isinstance(e, ast.Call) and isinstance(e.func, ast.Attribute) and isinstance(e.func.value, ast.Name) \
+                and e.func.value.id == v and not e.keywords and not any(isinstance(a, ast.Starred) for a in e.args):
+            for a in e.args:
+                for m in ast.walk(a):
+                    if isinstance(m, ast.Call):
+                        return None
+            return v, g.iter, e.func.attr, list(e.args)
+        return None
+
+    def comp_loop(self, comp, collect, out):
+        v, src, meth, args = comp
+        mut = self.mutated_attrs([])      # nothing but the recorded call runs in the body
+        if collect is None:
+            body = ".emitV (.var %s) %s %s" % (lean_str(v), lean_str(meth), self.exprs(args))
+        else:
+            self.locals.add("$e")
+            body = ".emitVT \"$e\" (.var %s) %s %s, .appendLocal %s (.var \"$e\")" % (
+                lean_str(v), lean_str(meth), self.exprs(args), lean_str(collect))
+        out.append(".forInS (.one %s) %s [%s]" % (lean_str(v), self.expr(src), body))
+
+    def expr(self, n):
+        if isinstance(n, ast.Compare) and len(n.ops) == 1 and isinstance(n.ops[0], (ast.Is, ast.IsNot)):
+            c = self.singleton(n.comparators[0])
+            if c is not None:
+                e = "(.isConst %s %s)" % (self.expr(n.left), lean_str(c))
+                return e if isinstance(n.ops[0], ast.Is) else "(.not %s)" % e
+        if self.is_self_attr(n) and self.kinds.get(n.attr) in ("plain", "input"):
+            return "(.construct \"boundmethod\" [(.str %s)])" % lean_str(n.attr)      # `self.accept` as a value
+        if isinstance(n, ast.Lambda):
+            return "(.construct \"lambda\" [(.str %s)])" % lean_str(_pyir_src(n))     # opaque; its source is its identity
+        if isinstance(n, ast.Attribute) and isinstance(n.value, ast.Name) and n.value.id not in self.locals \
+                and n.value.id != "self" and getattr(self.module, n.value.id, None) is not None:
+            return "(.construct \"global\" [(.str %s)])" % lean_str(n.value.id + "." + n.attr)   # `log.err` as a value
+        if isinstance(n, ast.ListComp) and len(n.generators) == 1:
+            g = n.generators[0]
+            e = n.elt
+            if not g.ifs and not g.is_async and isinstance(g.target, ast.Name) and isinstance(e, ast.Call) \
+                    and isinstance(e.func, ast.Name) and e.func.id not in self.locals and not e.keywords \
+                    and len(e.args) == 1 and isinstance(e.args[0], ast.Name) and e.args[0].id == g.target.id \
+                    and inspect.isfunction(getattr(self.module, e.func.id, None)) \
+                    and g.target.id not in self.params and self.stores.get(g.target.id, 0) == 1 \
+                    and ((isinstance(g.iter, ast.Name) and g.iter.id in self.locals) or self.is_self_attr(g.iter)):
+                return "(.mapExt %s %s)" % (lean_str(e.func.id), self.expr(g.iter))
+        return super().expr(n)
+
+    def call_stmt(self, n, target, out):
+        f = n.func
+        dc = self.data_call(n)
+        if dc is not None and dc[0] == "when_next_empty" and not dc[2] and target is not None \
+                and self.attr_kinds.get(dc[1]) == "set":
+            # EmptyableSet.when_next_empty(): a recorded call on the set object
+            out.append(".emitTo %s %s \"when_next_empty\" []" % (lean_str(target), lean_str(dc[1])))
+            return
+        if target is not None and isinstance(f, ast.Name) and f.id in _PYIR_CONN_EFFECTFUL and f.id not in self.locals \
+                and not n.keywords and not any(isinstance(a, ast.Starred) for a in n.args):
+            out.append(".emitGT %s %s %s" % (lean_str(target), lean_str(f.id), self.exprs(n.args)))
+            return
+        super().call_stmt(n, target, out)
+
+    def stmt(self, s, out):
+        if isinstance(s, ast.Expr):
+            comp = self.effect_comp(s.value)
+            if comp is not None:
+                self.comp_loop(comp, None, out)
+                return
+        if isinstance(s, ast.Assign) and len(s.targets) == 1 and isinstance(s.targets[0], ast.Name):
+            v = s.value
+            if isinstance(v, ast.Call) and isinstance(v.func, ast.Name) and v.func.id not in self.locals \
+                    and not v.keywords and len(v.args) == 1 and self.effect_comp(v.args[0]) is not None:
+                tmp = "$lc%d" % self.ntemp
+                self.ntemp += 1
+                self.locals.add(tmp)
+                out.append(".assign %s .emptyList" % lean_str(tmp))
+                self.comp_loop(self.effect_comp(v.args[0]), tmp, out)
+                out.append(".assign %s (.call %s [(.var %s)])" % (lean_str(s.targets[0].id), lean_str(v.func.id), lean_str(tmp)))
+                return
+            if isinstance(v, ast.Call) and isinstance(v.func, ast.Name) and v.func.id in _PYIR_CONN_EFFECTFUL:
+                self.call_stmt(v, s.targets[0].id, out)
+                return
+        if isinstance(s, ast.For) and not s.orelse and self.is_self_attr(s.iter) \
+                and self.attr_kinds.get(s.iter.attr) == "set" and not self.has_break(s.body):
+            tmp = []
+            super().stmt(s, tmp)
+            assert len(tmp) == 1 and tmp[0].startswith(".forIn ")
+            out.append(tmp[0].replace(".forIn ", ".forInS ", 1))
+            return
+        super().stmt(s, out)
+
+
+def _pyir_conn_class(module_name, cls_name, methods):
+    mod = importlib.import_module(module_name)
+    klass = getattr(mod, cls_name)
+    kinds, funcs = {}, {}
+    for name, member in vars(klass).items():
+        f = member
+        kind = "plain"
+        if hasattr(f, "method") and callable(getattr(f, "method")):
+            kind = {"MethodicalInput": "input", "MethodicalState": "state", "MethodicalOutput": "output"}.get(
+                type(f).__name__, "other")
+            f = f.method
+        if not inspect.isfunction(f):
+            continue
+        kinds[name] = kind
+        try:
+            funcs[name] = ast.parse(textwrap.dedent(inspect.getsource(f))).body[0]
+        except Exception:  # pragma: no cover
+            pass
+    attr_kinds = {}
+    for init in _PYIR_INIT_METHODS:
+        fn = funcs.get(init)
+        if fn is None:
+            continue
+        for n in ast.walk(fn):
+            if isinstance(n, ast.Assign) and len(n.targets) == 1:
+                t, v = n.targets[0], n.value
+                if isinstance(t, ast.Attribute) and isinstance(t.value, ast.Name) and t.value.id == "self":
+                    if isinstance(v, ast.Dict) and not v.keys:
+                        attr_kinds[t.attr] = "dict"
+                    elif isinstance(v, ast.List) and not v.elts:
+                        attr_kinds[t.attr] = "list"
+                    elif isinstance(v, ast.Call) and isinstance(v.func, ast.Name) and not v.args:
+                        if v.func.id in ("set", "dict", "list", "deque") and not v.keywords:
+                            attr_kinds[t.attr] = {"set": "set", "dict": "dict"}.get(v.func.id, "list")
+                        else:
+                            c = getattr(mod, v.func.id, None)
+                            # a subclass of set created empty (observer.EmptyableSet): a set; the methods it overrides or
+                            # adds are pinned in `setSubclassMethods`
+                            if inspect.isclass(c) and issubclass(c, set):
+                                attr_kinds[t.attr] = "set"
+    data_attrs = set(attr_kinds)
+    todo = sorted(n for n, k in kinds.items() if k == "output") + list(methods)
+    done, bad = {}, {}
+    while todo:
+        name = todo.pop(0)
+        if name in done or name in bad:
+            continue
+        fn = funcs.get(name)
+        if fn is None:
+            bad[name] = "source not available"
+            continue
+        if kinds.get(name) not in ("plain", "output"):
+            bad[name] = "not a plain method or output"
+            continue
+        try:
+            tr = _PyIRConn(mod, klass, kinds, data_attrs, fn, attr_kinds)
+            tr.klass_funcs = funcs
+            body = tr.block(fn.body)
+            done[name] = (tr.params, body)
+            for callee in sorted(tr.sibling_calls):
+                if callee not in done and callee not in bad:
+                    todo.append(callee)
+        except _Untranslatable as e:
+            bad[name] = str(e)
+    changed = True
+    while changed:
+        changed = False
+        for name in sorted(done):
+            for n in ast.walk(funcs[name]):
+                if isinstance(n, ast.Call) and isinstance(n.func, ast.Attribute) and isinstance(n.func.value, ast.Name) \
+                        and n.func.value.id == "self" and n.func.attr in bad:
+                    bad[name] = "calls untranslatable self.%s" % n.func.attr
+                    del done[name]
+                    changed = True
+                    break
+            if changed:
+                break
+    # what a `set` subclass used for a data attribute overrides / adds (the interpreter gives it plain-set semantics)
+    sub = []
+    for k, v in sorted(vars(mod).items()):
+        if inspect.isclass(v) and issubclass(v, set) and v is not set:
+            sub.append((k, sorted(n for n in vars(v) if not (n.startswith("__") and n != "__init__"))))
+    outputs = sorted(n for n, k in kinds.items() if k == "output")
+    return done, bad, sub, outputs
+
+
+def extract_pyir_conn():
+    """Lean data: the bodies of the Dilation Connector's outputs and helpers in the IR of WV/Model/PyIR.lean"""
+    L = ["import WV.Model.PyIR", "namespace WV.Gen.PyIRConn", "open WV.PyIR", ""]
+    all_done, all_bad, classes, subs, outs = [], [], [], [], []
+    for module, cls, methods in PYIR_CONN_TARGETS:
+        try:
+            done, bad, sub, outputs = _pyir_conn_class(module, cls, methods)
+        except Exception as e:
+            all_bad.append((cls, "class not translatable: %s" % type(e).__name__))
+            continue
+        cid = cls.lstrip("_")
+        classes.append((cls, cid, done))
+        subs.extend(sub)
+        outs.extend("%s.%s" % (cls, o) for o in outputs)
+        for name in sorted(done):
+            params, body = done[name]
+            L.append("def %s : List String × List Stmt :=" % ident("m_%s_%s" % (cid, name)))
+            L.append("  ([%s]," % ", ".join(lean_str(p) for p in params))
+            L.append("   %s)" % body)
+            all_done.append((cls, cid, name))
+        for name in sorted(bad):
+            all_bad.append(("%s.%s" % (cls, name), bad[name]))
+    L.append("")
+    for cls, cid, done in classes:
+        L.append("def %s : MethodTable" % ident("tbl_" + cid))
+        for name in sorted(done):
+            L.append("  | %s => some %s" % (lean_str(name), ident("m_%s_%s" % (cid, name))))
+        L.append("  | _ => none")
+    L.append("")
+    L.append("def translated : List String := [%s]" % ", ".join(lean_str("%s.%s" % (c, n)) for c, _, n in all_done))
+    L.append("")
+    L.append("/-- every `@m.output` of the class (translated or not) -/")
+    L.append("def outputs : List String := [%s]" % ", ".join(lean_str(o) for o in outs))
+    L.append("")
+    L.append("/-- methods with a construct outside the subset, and the construct -/")
+    L.append("def untranslatable : List (String × String) := [%s]" % ", ".join(
+        "(%s, %s)" % (lean_str(k), lean_str(v)) for k, v in all_bad))
+    L.append("")
+    L.append("/-- subclasses of `set` visible in the module and the methods they define (a data attribute created from one is")
+    L.append("    interpreted as a plain set: `discard` there also fires the `when_next_empty` observer, which is not modelled) -/")
+    L.append("def setSubclassMethods : List (String × List String) := [%s]" % ", ".join(
+        "(%s, [%s])" % (lean_str(k), ", ".join(lean_str(x) for x in f)) for k, f in subs))
+    L.append("end WV.Gen.PyIRConn")
+    return "\n".join(L) + "\n", len(all_done), all_bad
+# [deepConn] end ------------------------------------------------------------
+
+# [deepL2] begin ------------------------------------------------------------
+# PyIR for the L2 connection layer (connection.py: _Framer, _Record, DilatedConnectionProtocol, the record codec; encode.py):
+# a third generated module, WV/Gen/PyIRL2.lean.  `_PyIRL2` only ADDS cases to `_PyIRDil`/`_PyIR`.
+
+PYIR_L2_MODULE = "wormhole._dilation.connection"
+PYIR_L2_TARGETS = [
+    ("_Framer", ["add_and_parse", "send_frame"]),
+    ("_Record", ["send_record", "connectionMade", "add_and_unframe"]),
+    ("DilatedConnectionProtocol", ["send_record", "dataReceived", "connectionLost", "disconnect", "pauseProducing",
+                                   "resumeProducing", "use_relay"]),
+]
+PYIR_L2_FUNCTIONS = [("wormhole._dilation.connection", ["encode_record", "parse_record"]),
+                     ("wormhole._dilation.encode", ["to_be4", "from_be4"])]
+
+
+class _PyIRL2(_PyIRDil):
+    def __init__(self, module, klass, kinds, data_attrs, fn, attr_kinds, selfless=False):
+        self.module = module
+        self.klass = klass
+        self.kinds = kinds
+        self.data_attrs = data_attrs
+        self.attr_kinds = attr_kinds
+        self.fn = fn
+        a = fn.args
+        if a.vararg or a.kwarg or a.kwonlyargs or a.defaults or a.kw_defaults or a.posonlyargs:
+            raise _Untranslatable("parameter list with defaults/*args/**kwargs")
+        names = [x.arg for x in a.args]
+        if selfless:
+            self.params = names
+        else:
+            if not names or names[0] != "self":
+                raise _Untranslatable("not an instance method")
+            self.params = names[1:]
+        self.locals = set(self.params)
+        for n in ast.walk(fn):
+            if isinstance(n, ast.Name) and isinstance(n.ctx, (ast.Store, ast.Del)):
+                self.locals.add(n.id)
+            if isinstance(n, (ast.Lambda, ast.AsyncFunctionDef)) or (isinstance(n, ast.FunctionDef) and n is not fn):
+                raise _Untranslatable("nested function")
+            if isinstance(n, ast.YieldFrom):
+                raise _Untranslatable("yield from")
+            if isinstance(n, ast.ExceptHandler) and n.name:
+                self.locals.add(n.name)
+        self.match_vars = set()
+        self.ntemp = 0
+        self.sibling_calls = set()
+        self.assigned = set(self.params)
+        self.handler_cls = []
+
+    def record_class(self, name):
+        obj = getattr(self.module, name, None)
+        if name not in self.locals and inspect.isclass(obj) and issubclass(obj, tuple) and hasattr(obj, "_fields"):
+            return obj
+        return None
+
+    def expr(self, n):
+        if isinstance(n, ast.Name) and n.id not in self.locals and n.id != "self":
+            v = getattr(self.module, n.id, None)
+            if isinstance(v, bytes):
+                return "(.bytes %s)" % lean_bytes(v)
+            if isinstance(v, int) and not isinstance(v, bool) and v >= 0:
+                return "(.int %d)" % v
+        if isinstance(n, ast.Subscript) and isinstance(n.slice, ast.Slice):
+            sl = n.slice
+            if sl.step is not None:
+                raise _Untranslatable("slice with a step")
+            lo = "none" if sl.lower is None else "(some %s)" % self.expr(sl.lower)
+            hi = "none" if sl.upper is None else "(some %s)" % self.expr(sl.upper)
+            return "(.slice %s %s %s)" % (self.expr(n.value), lo, hi)
+        if isinstance(n, ast.Compare) and len(n.ops) == 1:
+            op, a, b = n.ops[0], n.left, n.comparators[0]
+            if isinstance(op, ast.GtE):
+                return "(.ge %s %s)" % (self.expr(a), self.expr(b))
+            if isinstance(op, ast.In) and isinstance(a, ast.Constant) and isinstance(a.value, bytes) and len(a.value) == 1:
+                return "(.byteIn %d %s)" % (a.value[0], self.expr(b))
+        if isinstance(n, ast.JoinedStr):
+            # a log message: its text is given by the interpreter's Env ("fstring"); the template is the first argument
+            tmpl, args = [], []
+            for part in n.values:
+                if isinstance(part, ast.Constant):
+                    tmpl.append(part.value)
+                elif isinstance(part, ast.FormattedValue) and part.conversion == -1 and part.format_spec is None:
+                    tmpl.append("{}")
+                    args.append(part.value)
+                else:
+                    raise _Untranslatable("f-string with conversion/format spec")
+            return "(.call \"fstring\" %s)" % self.exprs([ast.Constant("".join(tmpl))] + args)
+        return super().expr(n)
+
+    def call_expr(self, n):
+        f = n.func
+        if isinstance(f, ast.Name):
+            rc = self.record_class(f.id)
+            if rc is not None:
+                if any(isinstance(a, ast.Starred) for a in n.args) or any(k.arg is None for k in n.keywords):
+                    raise _Untranslatable("record constructor with *args/**kwargs")
+                fields = list(rc._fields)
+                slots = dict(zip(fields, n.args))
+                for k in n.keywords:
+                    if k.arg not in fields or k.arg in slots:
+                        raise _Untranslatable("record constructor keyword: " + _pyir_src(n))
+                    slots[k.arg] = k.value
+                if len(n.args) > len(fields) or set(slots) != set(fields):
+                    raise _Untranslatable("record constructor arity: " + _pyir_src(n))
+                # keyword arguments are evaluated in source order; they are pure here, so the field order is used
+                return "(.construct %s %s)" % (lean_str(f.id), self.exprs([slots[x] for x in fields]))
+        if isinstance(f, ast.Attribute) and f.attr == "startswith" and len(n.args) == 1 and not n.keywords:
+            return "(.startsWith %s %s)" % (self.expr(f.value), self.expr(n.args[0]))
+        return super().call_expr(n)
+
+    def call_stmt(self, n, target, out):
+        f = n.func
+        if self.is_self_attr(f) and self.kinds.get(f.attr) == "input" and not n.keywords:
+            # an Automat input on self: interpreted through the dispatcher the Lean side builds from the generated table
+            pre = []
+            args = self.args_with_hoist(n.args, pre)
+            out.extend(pre)
+            out.append(".callSelf %s %s %s" % (_lean_opt_str(target), lean_str(f.attr), args))
+            return
+        k = len(out)
+        super().call_stmt(n, target, out)
+        if target is not None and len(out) == k + 1 and out[k].startswith(".emitTo "):
+            # `x = self.<obj>.<meth>(…)`: the value (or exception) is a function of the evaluated arguments
+            out[k] = ".emitToA " + out[k][len(".emitTo "):]
+
+    def pop_like(self, n, target):
+        dc = self.data_call(n)
+        if dc is not None and dc[0] == "pop" and len(dc[2]) == 1 and self.attr_kinds.get(dc[1]) == "list" \
+                and isinstance(dc[2][0], ast.Constant) and dc[2][0].value == 0:
+            return ".popleft %s %s" % (_lean_opt_str(target), lean_str(dc[1]))      # `list.pop(0)`
+        return super().pop_like(n, target)
+
+    def stmt(self, s, out):
+        if isinstance(s, ast.If) and isinstance(s.test, ast.Call) and self.is_self_attr(s.test.func) \
+                and self.kinds.get(s.test.func.attr) == "plain":
+            # `if self.<sibling>(…):` — the call is made first, its value tested
+            tmp = "$%d" % self.ntemp
+            self.ntemp += 1
+            self.locals.add(tmp)
+            self.call_stmt(s.test, tmp, out)
+            out.append(".ite (.var %s) %s %s" % (lean_str(tmp), self.block(s.body), self.block(s.orelse)))
+            return
+        if isinstance(s, ast.Expr) and isinstance(s.value, ast.Yield):
+            v = s.value.value
+            if v is None:
+                raise _Untranslatable("bare yield")
+            if isinstance(v, ast.Call) and self.is_self_attr(v.func) and self.kinds.get(v.func.attr) in ("input", "plain"):
+                self.locals.add("$y")
+                self.call_stmt(v, "$y", out)
+                out.append(".emitG \"$gen\" \"yield\" [(.var \"$y\")]")
+                return
+            out.append(".emitG \"$gen\" \"yield\" [%s]" % self.expr(v))
+            return
+        if isinstance(s, ast.Assign) and len(s.targets) == 1 and isinstance(s.targets[0], ast.Name) \
+                and isinstance(s.value, ast.Call) and self.is_self_attr(s.value.func) \
+                and self.kinds.get(s.value.func.attr) == "input":
+            self.call_stmt(s.value, s.targets[0].id, out)
+            return
+        if isinstance(s, ast.AugAssign) and isinstance(s.op, ast.Add) and isinstance(s.target, ast.Name) \
+                and self.collab_call(s.value):
+            # `x += self._X.meth(…)`: the call cannot change the local, so it is hoisted
+            tmp = "$%d" % self.ntemp
+            self.ntemp += 1
+            self.locals.add(tmp)
+            self.call_stmt(s.value, tmp, out)
+            out.append(".augLocal %s (.var %s)" % (lean_str(s.target.id), lean_str(tmp)))
+            return
+        if isinstance(s, ast.Try) and not s.orelse and not s.finalbody and len(s.handlers) == 1 \
+                and isinstance(s.handlers[0].type, ast.Name):
+            self.handler_cls.append(s.handlers[0].type.id)
+            try:
+                super().stmt(s, out)
+            finally:
+                self.handler_cls.pop()
+            return
+        if isinstance(s, ast.Raise) and s.exc is None and s.cause is None and self.handler_cls:
+            # a bare `raise` inside `except Cls:` re-raises the exception that was caught (classes match by name)
+            out.append(".raise %s []" % lean_str(self.handler_cls[-1]))
+            return
+        super().stmt(s, out)
+
+
+def _pyir_l2_translate(mod, klass, kinds, funcs, attr_kinds, todo, selfless=False):
+    done, bad = {}, {}
+    todo = list(todo)
+    while todo:
+        name = todo.pop(0)
+        if name in done or name in bad:
+            continue
+        fn = funcs.get(name)
+        if fn is None:
+            bad[name] = "source not available"
+            continue
+        try:
+            tr = _PyIRL2(mod, klass, kinds, set(attr_kinds), fn, attr_kinds, selfless)
+            tr.klass_funcs = funcs
+            body = tr.block(fn.body)
+            done[name] = (tr.params, body)
+            for callee in sorted(tr.sibling_calls):
+                if callee not in done and callee not in bad:
+                    todo.append(callee)
+        except _Untranslatable as e:
+            bad[name] = str(e)
+    changed = True
+    while changed:
+        changed = False
+        for name in sorted(done):
+            for n in ast.walk(funcs[name]):
+                if isinstance(n, ast.Call) and isinstance(n.func, ast.Attribute) and isinstance(n.func.value, ast.Name) \
+                        and n.func.value.id == "self" and n.func.attr in bad and kinds.get(n.func.attr) == "plain":
+                    bad[name] = "calls untranslatable self.%s" % n.func.attr
+                    del done[name]
+                    changed = True
+                    break
+            if changed:
+                break
+    return done, bad
+
+
+def _pyir_l2_class(mod, cls_name, extra):
+    klass = getattr(mod, cls_name)
+    kinds, funcs = {}, {}
+    for name, member in vars(klass).items():
+        f = member
+        kind = "plain"
+        if hasattr(f, "method") and callable(getattr(f, "method")):
+            kind = {"MethodicalInput": "input", "MethodicalState": "state", "MethodicalOutput": "output"}.get(
+                type(f).__name__, "other")
+            f = f.method
+        if not inspect.isfunction(f):
+            continue
+        kinds[name] = kind
+        try:
+            funcs[name] = ast.parse(textwrap.dedent(inspect.getsource(f))).body[0]
+        except Exception:  # pragma: no cover
+            pass
+    attr_kinds = {}
+    for init in _PYIR_INIT_METHODS:
+        fn = funcs.get(init)
+        if fn is None:
+            continue
+        for n in ast.walk(fn):
+            if isinstance(n, ast.Assign) and len(n.targets) == 1:
+                t, v = n.targets[0], n.value
+                if isinstance(t, ast.Attribute) and isinstance(t.value, ast.Name) and t.value.id == "self":
+                    if isinstance(v, ast.Dict) and not v.keys:
+                        attr_kinds[t.attr] = "dict"
+                    elif isinstance(v, ast.List) and not v.elts:
+                        attr_kinds[t.attr] = "list"
+    todo = sorted(n for n, k in kinds.items() if k == "output") + list(extra)
+    return _pyir_l2_translate(mod, klass, kinds, funcs, attr_kinds, todo)
+
+
+def _pyir_l2_first_collectors(mod, cls_name):
+    """inputs of the class's machine that are wired with `collector=first` in at least one `upon(…)`, and those wired
+    without (Automat's default collector is `list`)"""
+    klass = getattr(mod, cls_name)
+    tree = ast.parse(textwrap.dedent(inspect.getsource(klass))).body[0]
+    first, other = set(), set()
+    for n in ast.walk(tree):
+        if isinstance(n, ast.Call) and isinstance(n.func, ast.Attribute) and n.func.attr == "upon" and n.args \
+                and isinstance(n.args[0], ast.Name):
+            col = [k.value for k in n.keywords if k.arg == "collector"]
+            if col and isinstance(col[0], ast.Name) and col[0].id == "first":
+                first.add(n.args[0].id)
+            else:
+                other.add(n.args[0].id)
+    return sorted(first), sorted(other)
+
+
+def extract_pyir_l2():
+    """Lean data: the bodies of the L2 connection layer in the IR of WV/Model/PyIR.lean"""
+    L = ["import WV.Model.PyIR", "namespace WV.Gen.PyIRL2", "open WV.PyIR", ""]
+    all_done, all_bad, classes, collectors = [], [], [], []
+    mod = importlib.import_module(PYIR_L2_MODULE)
+    for cls, extra in PYIR_L2_TARGETS:
+        try:
+            done, bad = _pyir_l2_class(mod, cls, extra)
+            first, other = _pyir_l2_first_collectors(mod, cls)
+        except Exception as e:
+            all_bad.append((cls, "class not translatable: %s" % type(e).__name__))
+            continue
+        cid = {"DilatedConnectionProtocol": "DCP"}.get(cls, cls.lstrip("_"))
+        classes.append((cls, cid, done))
+        collectors.append((cid, first, other))
+        for name in sorted(done):
+            params, body = done[name]
+            L.append("def %s : List String × List Stmt :=" % ident("m_%s_%s" % (cid, name)))
+            L.append("  ([%s]," % ", ".join(lean_str(p) for p in params))
+            L.append("   %s)" % body)
+            all_done.append((cls, cid, name))
+        for name in sorted(bad):
+            all_bad.append(("%s.%s" % (cls, name), bad[name]))
+    for module, names in PYIR_L2_FUNCTIONS:
+        fmod = importlib.import_module(module)
+        cid = "fn_" + module.rsplit(".", 1)[1]
+        funcs = {}
+        for name in names:
+            try:
+                funcs[name] = ast.parse(textwrap.dedent(inspect.getsource(getattr(fmod, name)))).body[0]
+            except Exception:
+                pass
+        done, bad = _pyir_l2_translate(fmod, None, {}, funcs, {}, names, selfless=True)
+        classes.append((cid, cid, done))
+        for name in sorted(done):
+            params, body = done[name]
+            L.append("def %s : List String × List Stmt :=" % ident("m_%s_%s" % (cid, name)))
+            L.append("  ([%s]," % ", ".join(lean_str(p) for p in params))
+            L.append("   %s)" % body)
+            all_done.append((cid, cid, name))
+        for name in sorted(bad):
+            all_bad.append(("%s.%s" % (cid, name), bad[name]))
+    L.append("")
+    for cls, cid, done in classes:
+        L.append("def %s : MethodTable" % ident("tbl_" + cid))
+        for name in sorted(done):
+            L.append("  | %s => some %s" % (lean_str(name), ident("m_%s_%s" % (cid, name))))
+        L.append("  | _ => none")
+    L.append("")
+    L.append("def translated : List String := [%s]" % ", ".join(lean_str("%s.%s" % (c, n)) for c, _, n in all_done))
+    L.append("")
+    L.append("/-- methods with a construct outside the subset, and the construct -/")
+    L.append("def untranslatable : List (String × String) := [%s]" % ", ".join(
+        "(%s, %s)" % (lean_str(k), lean_str(v)) for k, v in all_bad))
+    L.append("")
+    L.append("/-- per machine: the inputs wired with `collector=first` in every `upon`, and the inputs wired (somewhere) with the default collector -/")
+    L.append("def firstCollectors : List (String × List String × List String) := [%s]" % ", ".join(
+        "(%s, [%s], [%s])" % (lean_str(c), ", ".join(lean_str(x) for x in f), ", ".join(lean_str(x) for x in o))
+        for c, f, o in collectors))
+    L.append("")
+    L.append("/-- the namedtuple classes of connection.py and their fields (what `fieldAt` positions and `construct` refer to) -/")
+    L.append("def recordFields : List (String × List String) := [%s]" % ", ".join(
+        "(%s, [%s])" % (lean_str(k), ", ".join(lean_str(x) for x in v._fields))
+        for k, v in sorted(vars(mod).items())
+        if inspect.isclass(v) and issubclass(v, tuple) and hasattr(v, "_fields")))
+    L.append("end WV.Gen.PyIRL2")
+    return "\n".join(L) + "\n", len(all_done), all_bad
+# [deepL2] end --------------------------------------------------------------
+
+# [deepRC] begin ------------------------------------------------------------
+# PyIR for the RendezvousConnector glue and the three Input methods that WV.Gen.PyIR lists as untranslatable: a third
+# generated module, WV/Gen/PyIRRC.lean (the pins of the first two do not move).  `_PyIRRC` only ADDS cases to `_PyIR`.
+
+PYIR_RC_TARGETS = [
+    ("wormhole._rendezvous", "RendezvousConnector", "RendezvousConnector",
+     ["_tx", "stop", "ws_open", "ws_close", "_initial_connection_failed", "_stopped", "_response_handle_nameplates"]),
+    ("wormhole._input", "Input", "Input",
+     ["_get_nameplate_completions", "record_wordlist", "notify_wordlist_waiters"]),
+]
+_PYIR_RC_DEFERRED_METHODS = ("addCallback", "addErrback", "addBoth")
+
+
+class _PyIRRC(_PyIR):
+    def __init__(self, module, klass, kinds, data_attrs, fn):
+        self.module = module
+        self.klass = klass
+        self.kinds = kinds
+        self.data_attrs = data_attrs
+        self.fn = fn
+        a = fn.args
+        if a.vararg or a.kwonlyargs or a.defaults or a.kw_defaults or a.posonlyargs:
+            raise _Untranslatable("parameter list with defaults/*args")
+        names = [x.arg for x in a.args]
+        if not names or names[0] != "self":
+            raise _Untranslatable("not an instance method")
+        # `**kwargs` is an ordinary last parameter that holds the dict of the keyword arguments
+        self.params = names[1:] + ([a.kwarg.arg] if a.kwarg else [])
+        self.kwargs_name = a.kwarg.arg if a.kwarg else None
+        self.locals = set(self.params)
+        self.lambda_params = set()
+        for n in ast.walk(fn):
+            if isinstance(n, ast.Name) and isinstance(n.ctx, (ast.Store, ast.Del)):
+                self.locals.add(n.id)
+            if isinstance(n, (ast.FunctionDef, ast.AsyncFunctionDef)) and n is not fn:
+                raise _Untranslatable("nested function")
+            if isinstance(n, (ast.Yield, ast.YieldFrom)):
+                raise _Untranslatable("generator")
+            if isinstance(n, ast.ExceptHandler) and n.name:
+                self.locals.add(n.name)
+        for n in ast.walk(fn):
+            if isinstance(n, ast.Lambda):
+                self.callback_of(n)          # raises unless it is a forwarding continuation
+        self.match_vars = set()
+        self.ntemp = 0
+        self.sibling_calls = set()
+        self.deferred_vars = set()       # locals assigned from defer.maybeDeferred(…)
+        self.set_locals = set()          # locals assigned `set()`
+        self.local_funcs = set()         # names bound by a function-level `from … import …`
+        self.catch_depth = 0
+        self.popped_vars = set()         # locals assigned from `self.<list>.pop()`
+        self.set_attrs = set()           # data attributes the constructor creates as `set()` (filled in by the driver)
+
+    def callback_of(self, n):
+        """`lambda _: self._X.meth(<locals/constants>…)` -> (obj, meth, arg nodes): a named continuation"""
+        a = n.args
+        if len(a.args) != 1 or a.vararg or a.kwarg or a.kwonlyargs or a.defaults:
+            raise _Untranslatable("nested function")
+        ignored = a.args[0].arg
+        b = n.body
+        if isinstance(b, ast.Call) and isinstance(b.func, ast.Attribute) and self.is_self_attr(b.func.value) \
+                and not b.keywords and all(
+                    isinstance(x, ast.Constant) or (isinstance(x, ast.Name) and x.id in self.locals and x.id != ignored)
+                    for x in b.args):
+            return b.func.value.attr, b.func.attr, list(b.args)
+        raise _Untranslatable("nested function")
+
+    def expr(self, n):
+        if isinstance(n, ast.Lambda):
+            obj, meth, args = self.callback_of(n)
+            return "(.construct \"callback\" %s)" % self.exprs([ast.Constant(obj), ast.Constant(meth)] + args)
+        if self.is_self_attr(n) and self.kinds.get(n.attr) == "plain":
+            return "(.construct \"method\" [(.str %s)])" % lean_str(n.attr)      # a bound method of self, passed on
+        if isinstance(n, ast.Attribute) and isinstance(n.value, ast.Name) and n.value.id == "log" \
+                and "log" not in self.locals and inspect.ismodule(getattr(self.module, "log", None)):
+            return "(.construct \"function\" [(.str %s)])" % lean_str("log." + n.attr)
+        if isinstance(n, ast.Attribute) and isinstance(n.value, ast.Name) and n.value.id in self.locals:
+            return "(.call \"getattr\" %s)" % self.exprs([n.value, ast.Constant(n.attr)])     # `<local>.<name>`: opaque
+        return super().expr(n)
+
+    def call_expr(self, n):
+        f = n.func
+        if not n.keywords and isinstance(f, ast.Name) and f.id == "bool" and "bool" not in self.locals \
+                and len(n.args) == 1 and not isinstance(n.args[0], ast.Starred):
+            return "(.truthOf %s)" % self.expr(n.args[0])
+        if not n.keywords and not n.args and isinstance(f, ast.Attribute) and f.attr == "upper" \
+                and isinstance(f.value, ast.Name) and f.value.id in self.locals:
+            return "(.call \"str.upper\" %s)" % self.exprs([f.value])
+        return super().call_expr(n)
+
+    def call_stmt(self, n, target, out):
+        f = n.func
+        # d = defer.maybeDeferred(self._X.meth, args…): maybeDeferred calls it at once; the value is the Deferred.
+        # (Narrowing: a synchronous exception of the callee propagates in the IR, whereas maybeDeferred would wrap it in
+        # a failed Deferred; `Env.raises` on this call is only used to observe what has been done before the call.)
+        if target is not None and not n.keywords and isinstance(f, ast.Attribute) and f.attr == "maybeDeferred" \
+                and isinstance(f.value, ast.Name) and f.value.id == "defer" and "defer" not in self.locals \
+                and n.args and isinstance(n.args[0], ast.Attribute) and self.is_self_attr(n.args[0].value) \
+                and not any(isinstance(a, ast.Starred) for a in n.args):
+            g = n.args[0]
+            out.append(".emitTo %s %s %s %s" % (lean_str(target), lean_str(g.value.attr), lean_str(g.attr),
+                                               self.exprs(n.args[1:])))
+            self.deferred_vars.add(target)
+            return
+        # d.addCallback(f) / addErrback / addBoth on such a Deferred: recorded, receiver first
+        if target is None and not n.keywords and isinstance(f, ast.Attribute) and f.attr in _PYIR_RC_DEFERRED_METHODS \
+                and isinstance(f.value, ast.Name) and f.value.id in self.deferred_vars and len(n.args) == 1 \
+                and not isinstance(n.args[0], ast.Starred):
+            out.append(".emitV (.var %s) %s %s" % (lean_str(f.value.id), lean_str(f.attr), self.exprs(n.args)))
+            return
+        # [x =] self.<list>.pop()
+        dc = self.data_call(n)
+        if dc is not None and dc[0] == "pop" and not dc[2]:
+            out.append(".popLast %s %s" % (_lean_opt_str(target), lean_str(dc[1])))
+            if target is not None:
+                self.popped_vars.add(target)
+            return
+        # <popped waiter>.callback(x): a call on a value, recorded with the receiver first
+        if target is None and not n.keywords and isinstance(f, ast.Attribute) and f.attr == "callback" \
+                and isinstance(f.value, ast.Name) and f.value.id in self.popped_vars and len(n.args) == 1 \
+                and not isinstance(n.args[0], ast.Starred):
+            out.append(".emitV (.var %s) %s %s" % (lean_str(f.value.id), lean_str(f.attr), self.exprs(n.args)))
+            return
+        # <local set>.add(e)
+        if target is None and not n.keywords and isinstance(f, ast.Attribute) and f.attr == "add" and len(n.args) == 1 \
+                and isinstance(f.value, ast.Name) and f.value.id in self.set_locals:
+            out.append(".setAddL %s %s" % (lean_str(f.value.id), self.expr(n.args[0])))
+            return
+        # self._X.meth(args…, k=v, **kwargs): the dict goes last, `**` in the name suffix
+        if target is None and isinstance(f, ast.Attribute) and self.is_self_attr(f.value) \
+                and f.value.attr not in self.data_attrs and any(k.arg is None for k in n.keywords) \
+                and not any(isinstance(a, ast.Starred) for a in n.args):
+            if not all(k.arg is not None or (isinstance(k.value, ast.Name) and k.value.id in self.locals)
+                       for k in n.keywords):
+                raise _Untranslatable("**<expression> in a call: " + _pyir_src(n))
+            sfx = "[" + ",".join(k.arg if k.arg is not None else "**" + k.value.id for k in n.keywords) + "]"
+            out.append(".emit %s %s %s" % (lean_str(f.value.attr), lean_str(f.attr + sfx),
+                                          self.exprs(list(n.args) + [k.value for k in n.keywords])))
+            return
+        # a function imported inside the method, called for its effect: external, evaluated and dropped
+        if target is None and not n.keywords and isinstance(f, ast.Name) and f.id in self.local_funcs:
+            self.locals.add("$_")
+            out.append(".assign \"$_\" (.call %s %s)" % (lean_str(f.id), self.exprs(n.args)))
+            return
+        super().call_stmt(n, target, out)
+
+    @staticmethod
+    def touches_local(stmts, name):
+        for s in stmts:
+            for n in ast.walk(s):
+                if isinstance(n, ast.Name) and n.id == name and isinstance(n.ctx, (ast.Store, ast.Del)):
+                    return True
+                if isinstance(n, ast.Call) and isinstance(n.func, ast.Attribute) and isinstance(n.func.value, ast.Name) \
+                        and n.func.value.id == name:
+                    return True
+                if isinstance(n, (ast.Subscript, ast.Attribute)) and isinstance(n.ctx, (ast.Store, ast.Del)) \
+                        and isinstance(n.value, ast.Name) and n.value.id == name:
+                    return True
+        return False
+
+    def stmt(self, s, out):
+        if isinstance(s, ast.ImportFrom) and all(a.asname is None for a in s.names):
+            for a in s.names:
+                if a.name in self.locals:
+                    raise _Untranslatable("import re-binds a local")
+                self.local_funcs.add(a.name)
+            out.append(".pass")
+            return
+        if isinstance(s, ast.Assign) and len(s.targets) == 1:
+            t = s.targets[0]
+            if isinstance(t, ast.Subscript) and isinstance(t.value, ast.Name) and t.value.id in self.locals \
+                    and not isinstance(t.slice, ast.Slice):
+                out.append(".setItemLK %s %s %s" % (lean_str(t.value.id), self.expr(t.slice), self.expr(s.value)))
+                return
+            if isinstance(t, ast.Name):
+                v = s.value
+                if isinstance(v, ast.Call) and isinstance(v.func, ast.Attribute) and v.func.attr == "maybeDeferred" \
+                        and isinstance(v.func.value, ast.Name) and v.func.value.id == "defer":
+                    self.call_stmt(v, t.id, out)
+                    return
+                self.deferred_vars.discard(t.id)
+                is_set = isinstance(v, ast.Call) and isinstance(v.func, ast.Name) and v.func.id == "set" and not v.args
+                if is_set:
+                    self.set_locals.add(t.id)
+                else:
+                    self.set_locals.discard(t.id)
+        if isinstance(s, ast.For) and not s.orelse and self.is_self_attr(s.iter) and s.iter.attr in self.set_attrs:
+            # a loop over a set held in an attribute: `iterSet` (the IR's insertion order; see PyIR.lean)
+            if isinstance(s.target, ast.Name):
+                pat = "(.one %s)" % lean_str(s.target.id)
+            else:
+                raise _Untranslatable("loop target: " + _pyir_src(s.target))
+            mut = self.mutated_attrs(s.body)
+            if s.iter.attr in mut or "*" in mut:
+                raise _Untranslatable("loop body mutates the iterated attribute self.%s" % s.iter.attr)
+            out.append(".forIn %s (.iterSet %s) %s" % (pat, self.expr(s.iter), self.block(s.body)))
+            return
+        if isinstance(s, ast.For) and not s.orelse and isinstance(s.iter, ast.Name) and s.iter.id in self.locals \
+                and s.iter.id not in self.set_locals:
+            if isinstance(s.target, ast.Name):
+                pat = "(.one %s)" % lean_str(s.target.id)
+            elif isinstance(s.target, ast.Tuple) and all(isinstance(e, ast.Name) for e in s.target.elts):
+                pat = "(.tup [%s])" % ", ".join(lean_str(e.id) for e in s.target.elts)
+            else:
+                raise _Untranslatable("loop target: " + _pyir_src(s.target))
+            if self.touches_local(s.body, s.iter.id):
+                raise _Untranslatable("loop body touches the iterated local " + s.iter.id)
+            for n in ast.walk(self.fn):
+                # the local must not alias an attribute of self (the body could then change the list through the attribute)
+                if isinstance(n, ast.Assign) and any(isinstance(t, ast.Name) and t.id == s.iter.id for t in n.targets) \
+                        and any(isinstance(m, ast.Name) and m.id == "self" for m in ast.walk(n.value)):
+                    raise _Untranslatable("loop over a local that may alias an attribute: " + s.iter.id)
+            out.append(".forIn %s %s %s" % (pat, self.expr(s.iter), self.block(s.body)))
+            return
+        if isinstance(s, ast.Try) and not s.orelse and not s.finalbody and len(s.handlers) == 1 \
+                and isinstance(s.handlers[0].type, ast.Name) and s.handlers[0].type.id == "Exception" \
+                and "Exception" not in self.locals:
+            h = s.handlers[0]
+            body = self.block(s.body)
+            self.catch_depth += 1
+            try:
+                handler = self.block(h.body)
+            finally:
+                self.catch_depth -= 1
+            out.append(".tryCatchAll %s %s %s" % (body, _lean_opt_str(h.name), handler))
+            return
+        if isinstance(s, ast.Raise) and s.exc is None and s.cause is None and self.catch_depth > 0:
+            out.append(".raise \"$reraise\" []")
+            return
+        if isinstance(s, ast.Try) and self.catch_depth > 0:
+            raise _Untranslatable("try nested in an `except Exception` handler")
+        super().stmt(s, out)
+
+
+def _pyir_rc_class(module_name, cls_name, methods):
+    mod = importlib.import_module(module_name)
+    klass = getattr(mod, cls_name)
+    kinds, funcs = {}, {}
+    for name, member in vars(klass).items():
+        f = member
+        kind = "plain"
+        if hasattr(f, "method") and callable(getattr(f, "method")):
+            kind = {"MethodicalInput": "input", "MethodicalState": "state", "MethodicalOutput": "output"}.get(
+                type(f).__name__, "other")
+            f = f.method
+        if not inspect.isfunction(f):
+            continue
+        kinds[name] = kind
+        try:
+            funcs[name] = ast.parse(textwrap.dedent(inspect.getsource(f))).body[0]
+        except Exception:  # pragma: no cover
+            pass
+    data_attrs = set()
+    set_attrs = set()
+    for init in _PYIR_INIT_METHODS:
+        fn = funcs.get(init)
+        if fn is None:
+            continue
+        for n in ast.walk(fn):
+            if isinstance(n, ast.Assign) and len(n.targets) == 1:
+                t, v = n.targets[0], n.value
+                if isinstance(t, ast.Attribute) and isinstance(t.value, ast.Name) and t.value.id == "self":
+                    if (isinstance(v, ast.Dict) and not v.keys) or (isinstance(v, ast.List) and not v.elts) or (
+                            isinstance(v, ast.Call) and isinstance(v.func, ast.Name)
+                            and v.func.id in ("set", "dict", "list", "deque") and not v.args):
+                        data_attrs.add(t.attr)
+                    if isinstance(v, ast.Call) and isinstance(v.func, ast.Name) and v.func.id == "set" and not v.args:
+                        set_attrs.add(t.attr)
+    todo = list(methods)
+    done, bad = {}, {}
+    while todo:
+        name = todo.pop(0)
+        if name in done or name in bad:
+            continue
+        fn = funcs.get(name)
+        if fn is None:
+            bad[name] = "source not available"
+            continue
+        try:
+            tr = _PyIRRC(mod, klass, kinds, data_attrs, fn)
+            tr.klass_funcs = funcs
+            tr.set_attrs = set_attrs
+            body = tr.block(fn.body)
+            done[name] = (tr.params, body)
+            for callee in sorted(tr.sibling_calls):
+                if callee not in done and callee not in bad:
+                    todo.append(callee)
+        except _Untranslatable as e:
+            bad[name] = str(e)
+    changed = True
+    while changed:
+        changed = False
+        for name in sorted(done):
+            for n in ast.walk(funcs[name]):
+                if isinstance(n, ast.Call) and isinstance(n.func, ast.Attribute) and isinstance(n.func.value, ast.Name) \
+                        and n.func.value.id == "self" and n.func.attr in bad and kinds.get(n.func.attr) == "plain" \
+                        and not (funcs[n.func.attr].args.kwarg or funcs[n.func.attr].args.vararg):
+                    bad[name] = "calls untranslatable self.%s" % n.func.attr
+                    del done[name]
+                    changed = True
+                    break
+            if changed:
+                break
+    return done, bad
+
+
+def extract_pyir_rc():
+    """Lean data: the bodies of the RendezvousConnector glue / Input helper methods in the IR of WV/Model/PyIR.lean"""
+    L = ["import WV.Model.PyIR", "namespace WV.Gen.PyIRRC", "open WV.PyIR", ""]
+    all_done, all_bad, classes = [], [], []
+    for module, cls, cid, methods in PYIR_RC_TARGETS:
+        try:
+            done, bad = _pyir_rc_class(module, cls, methods)
+        except Exception as e:
+            all_bad.append((cls, "class not translatable: %s" % type(e).__name__))
+            continue
+        classes.append((cls, cid, done))
+        for name in sorted(done):
+            params, body = done[name]
+            L.append("def %s : List String × List Stmt :=" % ident("m_%s_%s" % (cid, name)))
+            L.append("  ([%s]," % ", ".join(lean_str(p) for p in params))
+            L.append("   %s)" % body)
+            all_done.append((cls, cid, name))
+        for name in sorted(bad):
+            all_bad.append(("%s.%s" % (cls, name), bad[name]))
+    L.append("")
+    for cls, cid, done in classes:
+        L.append("def %s : MethodTable" % ident("tbl_" + cid))
+        for name in sorted(done):
+            L.append("  | %s => some %s" % (lean_str(name), ident("m_%s_%s" % (cid, name))))
+        L.append("  | _ => none")
+    L.append("")
+    L.append("def translated : List String := [%s]" % ", ".join(lean_str("%s.%s" % (c, n)) for c, _, n in all_done))
+    L.append("")
+    L.append("/-- methods with a construct outside the subset, and the construct -/")
+    L.append("def untranslatable : List (String × String) := [%s]" % ", ".join(
+        "(%s, %s)" % (lean_str(k), lean_str(v)) for k, v in all_bad))
+    L.append("end WV.Gen.PyIRRC")
+    return "\n".join(L) + "\n", len(all_done), all_bad
+# [deepRC] end ----------------------------------------------------------------
+
+# [deepDil2] begin ------------------------------------------------------------
+# Second generated module for the Dilation data path (`lean/WV/Gen/PyIRDil2.lean`): methods that `extract_pyir_dil`
+# lists as untranslatable and that become translatable with ONE more statement form, without touching `_PyIRDil`:
+#   self.<a> = self.<obj>.<meth>(self.<gen>())      where <gen> is a generator method of the class
+# becomes   .emitTo "$t" <obj> <meth> [(.call "generator" [(.str <gen>)])], .setAttr <a> (.var "$t")
+# (the generator object is an opaque value of the environment; nothing of its body runs at this point in CPython either).
+PYIR_DIL2_TARGETS = [
+    ("wormhole._dilation.outbound", "PullToPush", ["startStreaming"]),
+]
+
+
+class _PyIRDil2(_PyIRDil):
+    def _is_generator_method(self, name):
+        fn = getattr(self, "klass_funcs", {}).get(name)
+        return fn is not None and any(isinstance(n, (ast.Yield, ast.YieldFrom)) for n in ast.walk(fn))
+
+    def stmt(self, s, out):
+        if isinstance(s, ast.Assign) and len(s.targets) == 1 and self.is_self_attr(s.targets[0]) \
+                and isinstance(s.value, ast.Call) and isinstance(s.value.func, ast.Attribute) \
+                and self.is_self_attr(s.value.func.value) and len(s.value.args) == 1 and not s.value.keywords:
+            g = s.value.args[0]
+            if isinstance(g, ast.Call) and self.is_self_attr(g.func) and not g.args and not g.keywords \
+                    and self._is_generator_method(g.func.attr):
+                self.locals.add("$t")
+                out.append(".emitTo \"$t\" %s %s [(.call \"generator\" [(.str %s)])]" % (
+                    lean_str(s.value.func.value.attr), lean_str(s.value.func.attr), lean_str(g.func.attr)))
+                out.append(".setAttr %s (.var \"$t\")" % lean_str(s.targets[0].attr))
+                return
+        super().stmt(s, out)
+
+
+def _pyir_dil2_class(module_name, cls_name, methods):
+    # `_pyir_dil_class` with the translator class exchanged (it looks `_PyIRDil` up when it runs)
+    global _PyIRDil
+    saved = _PyIRDil
+    _PyIRDil = _PyIRDil2
+    try:
+        return _pyir_dil_class(module_name, cls_name, methods)
+    finally:
+        _PyIRDil = saved
+
+
+def extract_pyir_dil2():
+    """Lean data: `WV.Gen.PyIRDil2` — the methods of PYIR_DIL2_TARGETS (and the siblings they call) in the IR"""
+    L = ["import WV.Model.PyIR", "namespace WV.Gen.PyIRDil2", "open WV.PyIR", ""]
+    all_done, all_bad, classes = [], [], []
+    for module, cls, methods in PYIR_DIL2_TARGETS:
+        try:
+            done, bad = _pyir_dil2_class(module, cls, methods)
+        except Exception as e:
+            all_bad.append((cls, "class not translatable: %s" % type(e).__name__))
+            continue
+        cid = cls.lstrip("_")
+        classes.append((cls, cid, done))
+        for name in sorted(done):
+            params, body = done[name]
+            L.append("def %s : List String × List Stmt :=" % ident("m_%s_%s" % (cid, name)))
+            L.append("  ([%s]," % ", ".join(lean_str(p) for p in params))
+            L.append("   %s)" % body)
+            all_done.append((cls, cid, name))
+        for name in sorted(bad):
+            all_bad.append(("%s.%s" % (cls, name), bad[name]))
+    L.append("")
+    for cls, cid, done in classes:
+        L.append("def %s : MethodTable" % ident("tbl_" + cid))
+        for name in sorted(done):
+            L.append("  | %s => some %s" % (lean_str(name), ident("m_%s_%s" % (cid, name))))
+        L.append("  | _ => none")
+    L.append("")
+    L.append("def translated : List String := [%s]" % ", ".join(lean_str("%s.%s" % (c, n)) for c, _, n in all_done))
+    L.append("")
+    L.append("/-- methods with a construct outside the subset, and the construct -/")
+    L.append("def untranslatable : List (String × String) := [%s]" % ", ".join(
+        "(%s, %s)" % (lean_str(k), lean_str(v)) for k, v in all_bad))
+    L.append("end WV.Gen.PyIRDil2")
+    return "\n".join(L) + "\n", len(all_done), all_bad
+# [deepDil2] end --------------------------------------------------------------
+
 # [C13 wire] begin ------------------------------------------------------------
 # C13, the 4-byte boundary of the subchannel id: the body of `Manager.allocate_subchannel_id` in the PyIR of
 # WV/Model/PyIR.lean (translated by `_PyIR`, the translator of extract_pyir; a module of its own, WV/Gen/C13Wire.lean,
@@ -3401,6 +4447,1246 @@ def extract_c13_wire():
     return "\n".join(L) + "\n"
 # [C13 wire] end --------------------------------------------------------------
 
+# [deepMgr] begin -------------------------------------------------------------
+# PyIR for the Dilation Manager and its TrafficTimer (src/wormhole/_dilation/manager.py): a third generated module,
+# WV/Gen/PyIRMgr.lean.  `_PyIRMgr` only ADDS cases to `_PyIRDil` (every override falls back to the base classes).
+
+PYIR_MGR_TARGETS = [
+    ("wormhole._dilation.manager", "TrafficTimer", []),
+    ("wormhole._dilation.manager", "Manager",
+     ["_signal_reconnect", "_send_ping_reset_timer", "send_ping", "_stop_using_connection", "got_wormhole_versions",
+      "fail", "got_dilation_key", "send_dilation_generation", "_start_connecting", "when_stopped",
+      "connector_connection_lost", "connector_connection_made", "received_dilation_message"]),
+]
+
+
+class _PyIRMgr(_PyIRDil):
+    def __init__(self, module, klass, kinds, data_attrs, fn, attr_kinds, nested_in=None):
+        self.module = module
+        self.klass = klass
+        self.kinds = kinds
+        self.data_attrs = data_attrs
+        self.attr_kinds = attr_kinds
+        self.fn = fn
+        self.nested_in = nested_in          # the translator of the enclosing method, for a nested `def`
+        a = fn.args
+        if a.kwonlyargs or a.kw_defaults or a.posonlyargs or a.vararg:
+            raise _Untranslatable("parameter list with *args/keyword-only parameters")
+        names = [x.arg for x in a.args]
+        if nested_in is None:
+            if not names or names[0] != "self":
+                raise _Untranslatable("not an instance method")
+            names = names[1:]
+        elif a.defaults or a.kwarg:
+            raise _Untranslatable("nested function with defaults/**kwargs")
+        # `**fields` is an ordinary last parameter that holds the dict of the keyword arguments; a parameter with a
+        # default is an ordinary parameter (every translated call site must pass it, see call_stmt)
+        self.params = names + ([a.kwarg.arg] if a.kwarg else [])
+        self.locals = set(self.params)
+        self.nested = {}                    # name -> FunctionDef of a nested function
+        for n in ast.walk(fn):
+            if isinstance(n, (ast.Lambda, ast.AsyncFunctionDef, ast.ListComp, ast.SetComp, ast.DictComp, ast.GeneratorExp)):
+                raise _Untranslatable("lambda / comprehension")
+            if isinstance(n, (ast.Yield, ast.YieldFrom)):
+                raise _Untranslatable("generator")
+            if isinstance(n, (ast.Global, ast.Nonlocal)):
+                raise _Untranslatable("global/nonlocal")
+        own = [fn]
+        inner_nodes = set()
+        for n in ast.walk(fn):
+            if isinstance(n, ast.FunctionDef) and n is not fn:
+                if nested_in is not None:
+                    raise _Untranslatable("doubly nested function")
+                self.nested[n.name] = n
+                self.locals.add(n.name)
+                for m in ast.walk(n):
+                    if m is not n:
+                        inner_nodes.add(id(m))
+        for n in ast.walk(fn):
+            if id(n) in inner_nodes:
+                continue
+            if isinstance(n, ast.Name) and isinstance(n.ctx, (ast.Store, ast.Del)):
+                self.locals.add(n.id)
+            if isinstance(n, ast.ExceptHandler) and n.name:
+                self.locals.add(n.name)
+        if nested_in is not None:
+            # a nested function may use `self` and its own names only (no closure over a local of the enclosing method)
+            for n in ast.walk(fn):
+                if isinstance(n, ast.Name) and n.id in nested_in.locals and n.id not in self.locals:
+                    raise _Untranslatable("nested function closes over the local " + n.id)
+        self.match_vars = set()
+        self.ntemp = 0
+        self.sibling_calls = set()
+        self.assigned = set(self.params)
+
+    def closure_of(self, n):
+        raise _Untranslatable("nested function")
+
+    def role_const(self, n):
+        if isinstance(n, ast.Name) and n.id not in self.locals:
+            obj = getattr(self.module, n.id, None)
+            if type(obj).__name__ == "_Role" and isinstance(getattr(obj, "_which", None), str):
+                return "(.construct \"_Role\" [(.str %s)])" % lean_str(obj._which)
+        return None
+
+    def expr(self, n):
+        rc = self.role_const(n)
+        if rc is not None:
+            return rc
+        if self.is_self_attr(n) and self.kinds.get(n.attr) == "plain" and isinstance(n.ctx, ast.Load):
+            # a bound plain method used as a value (`TrafficTimer(self._signal_reconnect, …)`)
+            return "(.call \"closure\" [(.str %s)])" % lean_str(n.attr)
+        if isinstance(n, ast.Compare) and len(n.ops) == 1:
+            op, a, b = n.ops[0], n.left, n.comparators[0]
+            if isinstance(op, ast.Gt):
+                return "(.gt %s %s)" % (self.expr(a), self.expr(b))
+            if isinstance(op, (ast.Is, ast.IsNot)) and self.role_const(b) is not None:
+                # `x is LEADER`: identity of the two module-level role objects = equality of their names
+                return "(.call %s %s)" % (lean_str("is" if isinstance(op, ast.Is) else "is not"), self.exprs([a, b]))
+            if isinstance(op, (ast.Eq, ast.NotEq)) and self.role_const(b) is not None \
+                    and type(getattr(self.module, b.id)).__eq__ is object.__eq__:
+                # `x == LEADER`: the role class defines no __eq__, so this is identity too
+                return "(.call %s %s)" % (lean_str("is" if isinstance(op, ast.Eq) else "is not"), self.exprs([a, b]))
+        if isinstance(n, ast.Dict) and n.keys and all(isinstance(k, ast.Constant) and isinstance(k.value, str) for k in n.keys):
+            ks = [k.value for k in n.keys]
+            if len(set(ks)) != len(ks):
+                raise _Untranslatable("dict literal with a repeated key")
+            return "(.dictLit [%s] %s)" % (", ".join(lean_str(k) for k in ks), self.exprs(n.values))
+        return super().expr(n)
+
+    def kwargs_dict(self, n):
+        """the `**kwargs` dict a call passes: `f(k1=e1, …)` -> dictLit, `f(**local)` -> the local"""
+        if n.args:
+            raise _Untranslatable("positional and keyword arguments for a **kwargs sibling: " + _pyir_src(n))
+        stars = [k for k in n.keywords if k.arg is None]
+        if len(stars) == 1 and len(n.keywords) == 1 and isinstance(stars[0].value, ast.Name) \
+                and stars[0].value.id in self.locals:
+            return "(.var %s)" % lean_str(stars[0].value.id)
+        if not stars:
+            ks = [k.arg for k in n.keywords]
+            return "(.dictLit [%s] %s)" % (", ".join(lean_str(k) for k in ks), self.exprs([k.value for k in n.keywords]))
+        raise _Untranslatable("mixed **kwargs: " + _pyir_src(n))
+
+    def call_stmt(self, n, target, out):
+        f = n.func
+        if self.is_self_attr(f) and self.kinds.get(f.attr) == "plain":
+            callee = self.klass_funcs.get(f.attr)
+            if callee is not None:
+                ca = callee.args
+                if ca.kwarg and not ca.vararg and len(ca.args) == 1:
+                    # `self.<sibling>(**fields)`: interpreted, the dict is its one argument
+                    self.sibling_calls.add(f.attr)
+                    out.append(".callSelf %s %s [%s]" % (_lean_opt_str(target), lean_str(f.attr), self.kwargs_dict(n)))
+                    return
+                if ca.defaults and (n.keywords or len(n.args) != len(ca.args) - 1
+                                    or any(isinstance(x, ast.Starred) for x in n.args)):
+                    raise _Untranslatable("call of a sibling with defaults that does not pass every parameter: " + _pyir_src(n))
+        super().call_stmt(n, target, out)
+
+    def hoist_collab(self, v, out):
+        """`(<local/const>…, self._X.meth(<pure>…), …)`: the one collaborator call of a tuple is recorded first — only when
+        everything CPython evaluates before it is a constant or a parameter"""
+        if isinstance(v, ast.Tuple):
+            idx = [i for i, e in enumerate(v.elts) if self.collab_call(e)]
+            if len(idx) == 1 and all(isinstance(e, ast.Constant) or (isinstance(e, ast.Name) and e.id in self.params)
+                                     for e in v.elts[:idx[0]]):
+                tmp = "$%d" % self.ntemp
+                self.ntemp += 1
+                self.locals.add(tmp)
+                _PyIR.call_stmt(self, v.elts[idx[0]], tmp, out)
+                elts = list(v.elts)
+                elts[idx[0]] = ast.Name(id=tmp, ctx=ast.Load())
+                return ast.Tuple(elts=elts, ctx=ast.Load())
+        return v
+
+    def stmt(self, s, out):
+        if isinstance(s, ast.FunctionDef):
+            if s.name not in self.nested:
+                raise _Untranslatable("nested function")
+            out.append(".assign %s (.call \"closure\" [(.str %s)])" % (lean_str(s.name), lean_str(self.fn.name + "." + s.name)))
+            self.assigned.add(s.name)
+            return
+        if isinstance(s, ast.Assign) and len(s.targets) == 1:
+            t = s.targets[0]
+            if isinstance(t, ast.Subscript) and not isinstance(t.slice, ast.Slice):
+                if isinstance(t.value, ast.Name) and t.value.id in self.locals:
+                    out.append(".setItemL %s %s %s" % (lean_str(t.value.id), self.expr(t.slice), self.expr(s.value)))
+                    return
+                if self.is_self_attr(t.value) and isinstance(s.value, ast.Tuple) \
+                        and (isinstance(t.slice, ast.Constant) or (isinstance(t.slice, ast.Name) and t.slice.id in self.params)):
+                    v = self.hoist_collab(s.value, out)
+                    out.append(".setItem %s %s %s" % (lean_str(t.value.attr), self.expr(t.slice), self.expr(v)))
+                    return
+        if isinstance(s, ast.Return) and isinstance(s.value, ast.Call) and self.is_self_attr(s.value.func) \
+                and self.kinds.get(s.value.func.attr) == "plain":
+            self.locals.add("$ret")
+            self.call_stmt(s.value, "$ret", out)
+            out.append(".ret (some (.var \"$ret\"))")
+            return
+        super().stmt(s, out)
+
+
+def _pyir_mgr_class(module_name, cls_name, methods):
+    mod = importlib.import_module(module_name)
+    klass = getattr(mod, cls_name)
+    kinds, funcs = {}, {}
+    for name, member in vars(klass).items():
+        f = member
+        kind = "plain"
+        if hasattr(f, "method") and callable(getattr(f, "method")):
+            kind = {"MethodicalInput": "input", "MethodicalState": "state", "MethodicalOutput": "output"}.get(
+                type(f).__name__, "other")
+            f = f.method
+        if not inspect.isfunction(f):
+            continue
+        kinds[name] = kind
+        try:
+            funcs[name] = ast.parse(textwrap.dedent(inspect.getsource(f))).body[0]
+        except Exception:  # pragma: no cover
+            pass
+    attr_kinds = {}
+    for init in _PYIR_INIT_METHODS:
+        fn = funcs.get(init)
+        if fn is None:
+            continue
+        for n in ast.walk(fn):
+            if isinstance(n, ast.Assign) and len(n.targets) == 1:
+                t, v = n.targets[0], n.value
+                if isinstance(t, ast.Attribute) and isinstance(t.value, ast.Name) and t.value.id == "self":
+                    if isinstance(v, ast.Dict) and not v.keys:
+                        attr_kinds[t.attr] = "dict"
+                    elif isinstance(v, ast.List) and not v.elts:
+                        attr_kinds[t.attr] = "list"
+                    elif isinstance(v, ast.Call) and isinstance(v.func, ast.Name) and not v.args \
+                            and v.func.id in ("set", "dict", "list", "deque"):
+                        attr_kinds[t.attr] = {"set": "set", "dict": "dict"}.get(v.func.id, "list")
+    data_attrs = set(attr_kinds)
+    todo = sorted(n for n, k in kinds.items() if k == "output") + list(methods)
+    done, bad = {}, {}
+    while todo:
+        name = todo.pop(0)
+        if name in done or name in bad:
+            continue
+        fn = funcs.get(name)
+        if fn is None:
+            bad[name] = "source not available"
+            continue
+        try:
+            tr = _PyIRMgr(mod, klass, kinds, data_attrs, fn, attr_kinds)
+            tr.klass_funcs = funcs
+            body = tr.block(fn.body)
+            inner = {}
+            for iname, inode in tr.nested.items():
+                itr = _PyIRMgr(mod, klass, kinds, data_attrs, inode, attr_kinds, nested_in=tr)
+                itr.klass_funcs = funcs
+                inner[name + "." + iname] = (itr.params, itr.block(inode.body))
+                tr.sibling_calls |= itr.sibling_calls
+            done[name] = (tr.params, body)
+            done.update(inner)
+            for callee in sorted(tr.sibling_calls):
+                if callee not in done and callee not in bad:
+                    todo.append(callee)
+        except _Untranslatable as e:
+            bad[name] = str(e)
+    changed = True
+    while changed:
+        changed = False
+        for name in sorted(done):
+            if "." in name:
+                continue
+            for n in ast.walk(funcs[name]):
+                if isinstance(n, ast.Call) and isinstance(n.func, ast.Attribute) and isinstance(n.func.value, ast.Name) \
+                        and n.func.value.id == "self" and n.func.attr in bad and kinds.get(n.func.attr) == "plain":
+                    bad[name] = "calls untranslatable self.%s" % n.func.attr
+                    for k in [k for k in done if k == name or k.startswith(name + ".")]:
+                        del done[k]
+                    changed = True
+                    break
+            if changed:
+                break
+    return done, bad
+
+
+def extract_pyir_mgr():
+    """Lean data: the bodies of the Manager / TrafficTimer methods in the IR of WV/Model/PyIR.lean"""
+    L = ["import WV.Model.PyIR", "namespace WV.Gen.PyIRMgr", "open WV.PyIR", ""]
+    all_done, all_bad, classes = [], [], []
+    for module, cls, methods in PYIR_MGR_TARGETS:
+        try:
+            done, bad = _pyir_mgr_class(module, cls, methods)
+        except Exception as e:
+            all_bad.append((cls, "class not translatable: %s" % type(e).__name__))
+            continue
+        cid = cls.lstrip("_")
+        classes.append((cls, cid, done))
+        for name in sorted(done):
+            params, body = done[name]
+            L.append("def %s : List String × List Stmt :=" % ident("m_%s_%s" % (cid, name.replace(".", "__"))))
+            L.append("  ([%s]," % ", ".join(lean_str(p) for p in params))
+            L.append("   %s)" % body)
+            all_done.append((cls, cid, name))
+        for name in sorted(bad):
+            all_bad.append(("%s.%s" % (cls, name), bad[name]))
+    L.append("")
+    for cls, cid, done in classes:
+        L.append("def %s : MethodTable" % ident("tbl_" + cid))
+        for name in sorted(done):
+            L.append("  | %s => some %s" % (lean_str(name), ident("m_%s_%s" % (cid, name.replace(".", "__")))))
+        L.append("  | _ => none")
+    L.append("")
+    L.append("def translated : List String := [%s]" % ", ".join(lean_str("%s.%s" % (c, n)) for c, _, n in all_done))
+    L.append("")
+    L.append("/-- methods with a construct outside the subset, and the construct -/")
+    L.append("def untranslatable : List (String × String) := [%s]" % ", ".join(
+        "(%s, %s)" % (lean_str(k), lean_str(v)) for k, v in all_bad))
+    L.append("end WV.Gen.PyIRMgr")
+    return "\n".join(L) + "\n", len(all_done), all_bad
+# [deepMgr] end ---------------------------------------------------------------
+
+
+# [deepObs] begin -----------------------------------------------------------
+# PyIR for the application-facing latches (observer.py, eventual.py, the two wormhole façades of wormhole.py): a
+# generated module of its own, WV/Gen/PyIRObs.lean.  `_PyIRObs` only ADDS cases to `_PyIRDil` (every override falls
+# back to the base class) and maps them onto constructs the interpreter already has -- WV/Model/PyIR.lean is unchanged:
+#   * `d = Deferred()`: allocation of an opaque handle `Deferred(n)`; n is read from the pseudo-attribute `$deferreds`
+#     of the heap (number of Deferreds created so far) which is then incremented: two statements, `.assign` + `.augAttr`;
+#   * `d.callback` / `d.errback` / `self.<method>` as a VALUE: the object `boundmethod(receiver, "name")`;
+#   * a module-level sentinel `X = object()`: the only object of the pseudo-class "X" (`x is X` = isinstanceAny x ["X"]);
+#   * `Failure(x)` / `failure.Failure(x)`: the object `Failure(x)`; `isinstance(x, Exception)`: by class name;
+#   * `a, b = e1, e2`: right-hand sides into temporaries left to right, then the targets left to right;
+#   * `for x in <local>:` when the body does not touch that local; `self.<list>.pop(0)` = `popleft` (IndexError);
+#   * `**kwargs` is an ordinary last parameter holding the dict; constant parameter defaults are the caller's business;
+#   * `f(*args, **kwargs)` on three locals: the call of a value (`emitV … "__call__" [args, kwargs]`).
+
+PYIR_OBS_TARGETS = [
+    ("wormhole.observer", "OneShotObserver",
+     ["when_fired", "fire", "_maybe_call_observers", "error", "fire_if_not_fired"]),
+    ("wormhole.observer", "SequenceObserver", ["when_next_event", "fire"]),
+    ("wormhole.eventual", "EventualQueue", ["eventually", "fire_eventually", "_turn", "flush_sync", "flush"]),
+    ("wormhole.wormhole", "_DeferredWormhole",
+     ["get_code", "get_welcome", "get_unverified_key", "get_verifier", "get_versions", "get_message", "close",
+      "got_welcome", "got_code", "got_key", "got_verifier", "got_versions", "received", "closed"]),
+    ("wormhole.wormhole", "_DelegatedWormhole",
+     ["close", "got_welcome", "got_code", "got_key", "got_verifier", "got_versions", "received", "closed"]),
+]
+_PYIR_OBS_BOUND = ("callback", "errback")
+_PYIR_OBS_VALUE_CLASSES = ("Failure",)
+
+
+def _pyir_obs_sentinels(module):
+    """module-level `X = object()` assignments: the sentinels of that module"""
+    out = set()
+    for st in ast.parse(inspect.getsource(module)).body:
+        if isinstance(st, ast.Assign) and len(st.targets) == 1 and isinstance(st.targets[0], ast.Name) \
+                and isinstance(st.value, ast.Call) and isinstance(st.value.func, ast.Name) and st.value.func.id == "object" \
+                and not st.value.args and not st.value.keywords:
+            out.add(st.targets[0].id)
+    return out
+
+
+class _PyIRObs(_PyIRDil):
+    def __init__(self, module, klass, kinds, data_attrs, fn, attr_kinds):
+        self.module = module
+        self.klass = klass
+        self.kinds = kinds
+        self.data_attrs = data_attrs
+        self.attr_kinds = attr_kinds
+        self.fn = fn
+        self.sentinels = _pyir_obs_sentinels(module)
+        a = fn.args
+        if a.kwonlyargs or a.kw_defaults or a.posonlyargs:
+            raise _Untranslatable("parameter list with keyword-only/positional-only parameters")
+        if not all(isinstance(d, ast.Constant) for d in a.defaults):
+            raise _Untranslatable("parameter default that is not a constant")
+        names = [x.arg for x in a.args]
+        if not names or names[0] != "self":
+            raise _Untranslatable("not an instance method")
+        self.params = names[1:] + ([a.vararg.arg] if a.vararg else []) + ([a.kwarg.arg] if a.kwarg else [])
+        self.locals = set(self.params)
+        for n in ast.walk(fn):
+            if isinstance(n, ast.Name) and isinstance(n.ctx, (ast.Store, ast.Del)):
+                self.locals.add(n.id)
+            if isinstance(n, (ast.Lambda, ast.AsyncFunctionDef)):
+                raise _Untranslatable("nested function")
+            if isinstance(n, ast.FunctionDef) and n is not fn:
+                raise _Untranslatable("nested function")
+            if isinstance(n, (ast.Yield, ast.YieldFrom)):
+                raise _Untranslatable("generator")
+            if isinstance(n, ast.ExceptHandler) and n.name:
+                self.locals.add(n.name)
+        self.match_vars = set()
+        self.ntemp = 0
+        self.sibling_calls = set()
+        self.assigned = set(self.params)
+
+    def is_deferred_ctor(self, n):
+        return (isinstance(n, ast.Call) and isinstance(n.func, ast.Name) and n.func.id == "Deferred"
+                and "Deferred" not in self.locals and not n.args and not n.keywords
+                and getattr(getattr(self.module, "Deferred", None), "__name__", None) == "Deferred")
+
+    def is_bound_of_local(self, n):
+        return (isinstance(n, ast.Attribute) and isinstance(n.value, ast.Name) and n.value.id in self.locals
+                and n.attr in _PYIR_OBS_BOUND)
+
+    def expr(self, n):
+        if isinstance(n, ast.Name) and n.id not in self.locals and n.id in self.sentinels:
+            return "(.construct %s [])" % lean_str(n.id)
+        if isinstance(n, ast.Compare) and len(n.ops) == 1 and isinstance(n.ops[0], (ast.Is, ast.IsNot)):
+            b = n.comparators[0]
+            if isinstance(b, ast.Name) and b.id not in self.locals and b.id in self.sentinels:
+                e = "(.isinstanceAny %s [%s])" % (self.expr(n.left), lean_str(b.id))
+                return e if isinstance(n.ops[0], ast.Is) else "(.not %s)" % e
+        if self.is_bound_of_local(n):
+            return "(.construct \"boundmethod\" [(.var %s), (.str %s)])" % (lean_str(n.value.id), lean_str(n.attr))
+        if self.is_self_attr(n) and self.kinds.get(n.attr) == "plain" and n.attr in getattr(self, "klass_funcs", {}):
+            return "(.construct \"boundmethod\" [(.construct \"self\" []), (.str %s)])" % lean_str(n.attr)
+        if self.is_deferred_ctor(n):
+            raise _Untranslatable("Deferred() in expression position")
+        return super().expr(n)
+
+    def call_expr(self, n):
+        f = n.func
+        if not n.keywords and not any(isinstance(a, ast.Starred) for a in n.args):
+            if isinstance(f, ast.Name) and f.id == "isinstance" and len(n.args) == 2 \
+                    and isinstance(n.args[1], ast.Name) and n.args[1].id == "Exception" and "Exception" not in self.locals \
+                    and not hasattr(self.module, "Exception"):
+                return "(.isinstanceAny %s [\"Exception\"])" % self.expr(n.args[0])
+            name = None
+            if isinstance(f, ast.Name) and f.id not in self.locals:
+                name, obj = f.id, getattr(self.module, f.id, None)
+            elif isinstance(f, ast.Attribute) and isinstance(f.value, ast.Name) and f.value.id not in self.locals \
+                    and f.value.id != "self" and inspect.ismodule(getattr(self.module, f.value.id, None)):
+                name, obj = f.attr, getattr(getattr(self.module, f.value.id), f.attr, None)
+            if name in _PYIR_OBS_VALUE_CLASSES and inspect.isclass(obj) and obj.__name__ == name:
+                return "(.construct %s %s)" % (lean_str(name), self.exprs(n.args))
+        return super().call_expr(n)
+
+    def pop_like(self, n, target):
+        dc = self.data_call(n)
+        if dc is not None:
+            kind, a, args = dc
+            if kind == "pop" and len(args) == 1 and isinstance(args[0], ast.Constant) and args[0].value == 0 \
+                    and args[0].value is not False and self.attr_kinds.get(a) == "list":
+                return ".popleft %s %s" % (_lean_opt_str(target), lean_str(a))
+            if kind == "pop" and self.attr_kinds.get(a) == "list":
+                return None
+        return super().pop_like(n, target)
+
+    def args_with_hoist(self, args, out):
+        # a bound method of a local (`d.callback`) in front of an effectful argument is pure: hoisting stays sound
+        res = []
+        for i, a in enumerate(args):
+            if isinstance(a, ast.Starred):
+                raise _Untranslatable("*args")
+            if self.data_call(a) is not None:
+                if not all(isinstance(b, (ast.Constant, ast.Name)) or self.is_bound_of_local(b) for b in args[:i]):
+                    raise _Untranslatable("effectful argument after a non-trivial one: " + _pyir_src(a))
+                tmp = "$%d" % self.ntemp
+                self.ntemp += 1
+                st = self.pop_like(a, tmp)
+                if st is None:
+                    raise _Untranslatable("effectful argument: " + _pyir_src(a))
+                out.append(st)
+                self.locals.add(tmp)
+                res.append("(.var %s)" % lean_str(tmp))
+            else:
+                res.append(self.expr(a))
+        return "[" + ", ".join(res) + "]"
+
+    def call_stmt(self, n, target, out):
+        f = n.func
+        # `self.<X>.<meth>(…, self.<list>.pop(0))`: the Dilation translator refuses hoisting for calls that may re-enter;
+        # the observers' collaborator is the eventual queue, which only stores the call: recorded with `.emit`
+        if target is None and not n.keywords and isinstance(f, ast.Attribute) and self.is_self_attr(f.value) \
+                and f.value.attr not in self.data_attrs and any(self.data_call(a) is not None for a in n.args):
+            return _PyIR.call_stmt(self, n, target, out)
+        super().call_stmt(n, target, out)
+
+    def stmt(self, s, out):
+        if isinstance(s, ast.Assign) and len(s.targets) == 1 and self.is_deferred_ctor(s.value):
+            t = s.targets[0]
+            alloc = "(.construct \"Deferred\" [(.attr \"$deferreds\")])"
+            if isinstance(t, ast.Name):
+                out.append(".assign %s %s" % (lean_str(t.id), alloc))
+            elif self.is_self_attr(t):
+                out.append(".setAttr %s %s" % (lean_str(t.attr), alloc))
+            else:
+                raise _Untranslatable("assignment target: " + _pyir_src(t))
+            out.append(".augAttr \"$deferreds\" (.int 1)")
+            if s in self.fn.body and isinstance(t, ast.Name):
+                self.assigned.add(t.id)
+            return
+        if isinstance(s, ast.Assign) and len(s.targets) == 1 and isinstance(s.targets[0], ast.Tuple) \
+                and isinstance(s.value, ast.Tuple) and len(s.targets[0].elts) == len(s.value.elts):
+            tmps = []
+            for v in s.value.elts:
+                if isinstance(v, ast.Call):
+                    raise _Untranslatable("call on the right-hand side of a tuple assignment")
+                tmp = "$%d" % self.ntemp
+                self.ntemp += 1
+                self.locals.add(tmp)
+                tmps.append(tmp)
+                out.append(".assign %s %s" % (lean_str(tmp), self.expr(v)))
+            for t, tmp in zip(s.targets[0].elts, tmps):
+                if isinstance(t, ast.Name):
+                    out.append(".assign %s (.var %s)" % (lean_str(t.id), lean_str(tmp)))
+                elif self.is_self_attr(t):
+                    out.append(".setAttr %s (.var %s)" % (lean_str(t.attr), lean_str(tmp)))
+                else:
+                    raise _Untranslatable("assignment target: " + _pyir_src(t))
+            return
+        if isinstance(s, ast.Expr) and isinstance(s.value, ast.Call) and isinstance(s.value.func, ast.Name) \
+                and s.value.func.id in self.locals and len(s.value.args) == 1 and len(s.value.keywords) == 1 \
+                and isinstance(s.value.args[0], ast.Starred) and isinstance(s.value.args[0].value, ast.Name) \
+                and s.value.keywords[0].arg is None and isinstance(s.value.keywords[0].value, ast.Name):
+            # `f(*args, **kwargs)` on locals: the call of a value, recorded with the callee, the tuple and the dict
+            out.append(".emitV (.var %s) \"__call__\" [(.var %s), (.var %s)]" % (
+                lean_str(s.value.func.id), lean_str(s.value.args[0].value.id), lean_str(s.value.keywords[0].value.id)))
+            return
+        if isinstance(s, ast.For) and not s.orelse and isinstance(s.iter, ast.Name) and s.iter.id in self.locals \
+                and (isinstance(s.target, ast.Name) or (isinstance(s.target, ast.Tuple)
+                                                        and all(isinstance(e, ast.Name) for e in s.target.elts))) \
+                and not self.has_break(s.body):
+            src = s.iter.id
+            for b in s.body:
+                for n in ast.walk(b):
+                    if isinstance(n, ast.Name) and n.id == src:
+                        raise _Untranslatable("loop body uses the iterated local " + src)
+            if self.mutated_attrs(s.body):
+                # the local may alias a container attribute: snapshot iteration is only faithful if nothing is mutated
+                raise _Untranslatable("loop over a local whose body mutates attributes of self")
+            pat = "(.one %s)" % lean_str(s.target.id) if isinstance(s.target, ast.Name) else \
+                "(.tup [%s])" % ", ".join(lean_str(e.id) for e in s.target.elts)
+            out.append(".forIn %s (.var %s) %s" % (pat, lean_str(src), self.block(s.body)))
+            return
+        super().stmt(s, out)
+
+
+def _pyir_obs_class(module_name, cls_name, methods):
+    mod = importlib.import_module(module_name)
+    klass = getattr(mod, cls_name)
+    kinds, funcs = {}, {}
+    for name, member in vars(klass).items():
+        if not inspect.isfunction(member):
+            continue
+        kinds[name] = "plain"
+        try:
+            funcs[name] = ast.parse(textwrap.dedent(inspect.getsource(member))).body[0]
+        except Exception:  # pragma: no cover
+            pass
+    attr_kinds = {}
+    for init in _PYIR_INIT_METHODS:
+        fn = funcs.get(init)
+        if fn is None:
+            continue
+        for n in ast.walk(fn):
+            if isinstance(n, ast.Assign) and len(n.targets) == 1:
+                t, v = n.targets[0], n.value
+                if isinstance(t, ast.Attribute) and isinstance(t.value, ast.Name) and t.value.id == "self":
+                    if isinstance(v, ast.Dict) and not v.keys:
+                        attr_kinds[t.attr] = "dict"
+                    elif isinstance(v, ast.List) and not v.elts:
+                        attr_kinds[t.attr] = "list"
+                    elif isinstance(v, ast.Call) and isinstance(v.func, ast.Name) and not v.args \
+                            and v.func.id in ("set", "dict", "list", "deque"):
+                        attr_kinds[t.attr] = {"set": "set", "dict": "dict"}.get(v.func.id, "list")
+    data_attrs = set(attr_kinds)
+    todo = list(methods)
+    done, bad = {}, {}
+    while todo:
+        name = todo.pop(0)
+        if name in done or name in bad:
+            continue
+        fn = funcs.get(name)
+        if fn is None:
+            bad[name] = "source not available"
+            continue
+        try:
+            tr = _PyIRObs(mod, klass, kinds, data_attrs, fn, attr_kinds)
+            tr.klass_funcs = funcs
+            body = tr.block(fn.body)
+            done[name] = (tr.params, body)
+            for callee in sorted(tr.sibling_calls):
+                if callee not in done and callee not in bad:
+                    todo.append(callee)
+        except _Untranslatable as e:
+            bad[name] = str(e)
+    changed = True
+    while changed:
+        changed = False
+        for name in sorted(done):
+            for n in ast.walk(funcs[name]):
+                if isinstance(n, ast.Call) and isinstance(n.func, ast.Attribute) and isinstance(n.func.value, ast.Name) \
+                        and n.func.value.id == "self" and n.func.attr in bad:
+                    bad[name] = "calls untranslatable self.%s" % n.func.attr
+                    del done[name]
+                    changed = True
+                    break
+            if changed:
+                break
+    return done, bad
+
+
+def extract_pyir_obs():
+    """Lean data: the bodies of the observer / eventual-queue / façade methods in the IR of WV/Model/PyIR.lean"""
+    L = ["import WV.Model.PyIR", "namespace WV.Gen.PyIRObs", "open WV.PyIR", ""]
+    all_done, all_bad, classes = [], [], []
+    for module, cls, methods in PYIR_OBS_TARGETS:
+        try:
+            done, bad = _pyir_obs_class(module, cls, methods)
+        except Exception as e:
+            all_bad.append((cls, "class not translatable: %s" % type(e).__name__))
+            continue
+        cid = cls.lstrip("_")
+        classes.append((cls, cid, done))
+        for name in sorted(done):
+            params, body = done[name]
+            L.append("def %s : List String × List Stmt :=" % ident("m_%s_%s" % (cid, name)))
+            L.append("  ([%s]," % ", ".join(lean_str(p) for p in params))
+            L.append("   %s)" % body)
+            all_done.append((cls, cid, name))
+        for name in sorted(bad):
+            all_bad.append(("%s.%s" % (cls, name), bad[name]))
+    L.append("")
+    for cls, cid, done in classes:
+        L.append("def %s : MethodTable" % ident("tbl_" + cid))
+        for name in sorted(done):
+            L.append("  | %s => some %s" % (lean_str(name), ident("m_%s_%s" % (cid, name))))
+        L.append("  | _ => none")
+    L.append("")
+    L.append("def translated : List String := [%s]" % ", ".join(lean_str("%s.%s" % (c, n)) for c, _, n in all_done))
+    L.append("")
+    L.append("/-- methods with a construct outside the subset, and the construct -/")
+    L.append("def untranslatable : List (String × String) := [%s]" % ", ".join(
+        "(%s, %s)" % (lean_str(k), lean_str(v)) for k, v in all_bad))
+    L.append("end WV.Gen.PyIRObs")
+    return "\n".join(L) + "\n", len(all_done), all_bad
+# [deepObs] end -------------------------------------------------------------
+
+
+# [deepSub] begin -----------------------------------------------------------
+# PyIR for subchannels (SubChannel's outputs and helper methods, SubchannelDemultiplex, the Manager methods they call):
+# a generated module of its own, WV/Gen/PyIRSub.lean, so that no pin of the other PyIR modules moves.  `_PyIRSub` only
+# ADDS cases to `_PyIRDil` (every override falls back to the base class).
+
+# (module, class, take every @m.output as well?, plain methods)
+PYIR_SUB_TARGETS = [
+    ("wormhole._dilation.subchannel", "SubChannel", True,
+     ["__attrs_post_init__", "_set_protocol", "_deliver_queued_data", "write", "writeSequence", "loseWriteConnection",
+      "loseConnection", "stopProducing", "pauseProducing", "resumeProducing", "registerProducer", "unregisterProducer"]),
+    ("wormhole._dilation.subchannel", "SubchannelDemultiplex", False, ["__init__", "_got_open", "_connect", "register"]),
+    ("wormhole._dilation.manager", "Manager", False,
+     ["subchannel_closed", "subchannel_local_open", "send_open", "send_data", "send_close", "_queue_and_send",
+      "_register_subprotocol_factory"]),
+]
+_PYIR_SUB_NOT_RECORDED = set(_PYIR_STR_METHODS) | {"get", "items", "group", "popleft", "pop", "join"}
+
+
+def _pyir_sub_attrs_classes(module):
+    """the attrs classes of the module: [(class name, attribute names in positional order)]"""
+    import attr as _attr
+    out = []
+    for k, v in sorted(vars(module).items()):
+        if inspect.isclass(v) and getattr(v, "__module__", None) == module.__name__ and _attr.has(v):
+            out.append((k, [a.name for a in _attr.fields(v)]))
+    return out
+
+
+def _pyir_sub_field_index(module, name):
+    idx = {f.index(name) for _, f in _pyir_sub_attrs_classes(module) if name in f}
+    if len(idx) != 1:
+        raise _Untranslatable("attribute .%s of a value: not a field with one position in the attrs classes" % name)
+    return idx.pop()
+
+
+class _PyIRSub(_PyIRDil):
+    def __init__(self, module, klass, kinds, data_attrs, fn, attr_kinds):
+        self.defaults = []
+        a = fn.args
+        if a.defaults and not (a.kwarg or a.kwonlyargs or a.kw_defaults or a.posonlyargs or a.vararg):
+            # a default is the caller's business: the body is translated with the parameter passed explicitly, the
+            # default itself is listed in the generated module (`defaults`)
+            import copy as _copy
+            names = [x.arg for x in a.args]
+            self.defaults = list(zip(names[len(names) - len(a.defaults):], [_pyir_src(d) for d in a.defaults]))
+            fn2 = _copy.copy(fn)
+            fn2.args = _copy.copy(a)
+            fn2.args.defaults = []
+            fn = fn2
+        super().__init__(module, klass, kinds, data_attrs, fn, attr_kinds)
+
+    def global_obj(self, n):
+        if isinstance(n, ast.Name) and n.id not in self.locals and n.id != "self":
+            return getattr(self.module, n.id, None)
+        return None
+
+    def is_interface(self, n):
+        from zope.interface.interface import InterfaceClass
+        return isinstance(self.global_obj(n), InterfaceClass)
+
+    def expr(self, n):
+        g = self.global_obj(n)
+        if isinstance(g, int) and not isinstance(g, bool) and g >= 0:
+            return "(.int %d)" % g                      # a module-level int constant (MAX_FRAME_LENGTH)
+        if inspect.isclass(g) and issubclass(g, tuple) and hasattr(g, "_fields"):
+            return "(.construct \"type\" [(.str %s)])" % lean_str(n.id)     # a record class passed on (`Open`, `Data`, `Close`)
+        if isinstance(n, ast.Attribute) and not self.is_self_attr(n) and isinstance(n.value, ast.Name) \
+                and n.value.id in self.locals:
+            return "(.fieldAt %s %s %d)" % (self.expr(n.value), lean_str(n.attr), _pyir_sub_field_index(self.module, n.attr))
+        return super().expr(n)
+
+    def call_expr(self, n):
+        f = n.func
+        if not n.keywords and isinstance(f, ast.Name) and f.id not in self.locals:
+            import collections as _c
+            g = self.global_obj(f)
+            if g is _c.deque and not n.args:
+                return ".emptyList"
+            if g is _c.defaultdict and len(n.args) == 1 and self.global_obj(n.args[0]) is _c.deque:
+                return ".emptyDict"
+            if self.is_interface(f) and len(n.args) == 1:
+                return "(.call %s %s)" % (lean_str(f.id), self.exprs(n.args))       # adaptation `IFoo(x)`
+        if not n.keywords and isinstance(f, ast.Attribute) and f.attr == "join" and len(n.args) == 1 \
+                and isinstance(f.value, ast.Constant) and isinstance(f.value.value, bytes):
+            return "(.call \"bytes.join\" %s)" % self.exprs([f.value, n.args[0]])
+        return super().call_expr(n)
+
+    def call_stmt(self, n, target, out):
+        f = n.func
+        if target is None and not n.keywords and isinstance(f, ast.Attribute):
+            v = f.value
+            # `IFoo(x).meth(args…)`: adapt (pure, may raise TypeError), then a call on the adapted value
+            if isinstance(v, ast.Call) and not v.keywords and self.is_interface(v.func) and len(v.args) == 1 \
+                    and not any(isinstance(a, ast.Starred) for a in list(n.args) + list(v.args)):
+                self.locals.add("$adapt")
+                out.append(".assign \"$adapt\" %s" % self.call_expr(v))
+                out.append(".emitV (.var \"$adapt\") %s %s" % (lean_str(f.attr), self.exprs(n.args)))
+                return
+            # `self.<defaultdict(deque)>[k].append(x)`
+            if f.attr == "append" and len(n.args) == 1 and isinstance(v, ast.Subscript) and self.is_self_attr(v.value) \
+                    and self.attr_kinds.get(v.value.attr) == "ddeque" and not isinstance(v.slice, ast.Slice):
+                out.append(".appendAtD %s %s %s" % (lean_str(v.value.attr), self.expr(v.slice), self.expr(n.args[0])))
+                return
+        super().call_stmt(n, target, out)
+
+    def local_popleft(self, v):
+        if isinstance(v, ast.Call) and not v.args and not v.keywords and isinstance(v.func, ast.Attribute) \
+                and v.func.attr == "popleft" and isinstance(v.func.value, ast.Name) and v.func.value.id in self.locals:
+            return v.func.value.id
+        return None
+
+    def stmt(self, s, out):
+        if isinstance(s, ast.Delete) and len(s.targets) == 1 and self.is_self_attr(s.targets[0]):
+            out.append(".delAttr %s" % lean_str(s.targets[0].attr))
+            return
+        if isinstance(s, ast.Assign) and len(s.targets) == 1:
+            t, v = s.targets[0], s.value
+            q = self.local_popleft(v)
+            if q is not None and isinstance(t, ast.Name):
+                out.append(".popleftLocal (.one %s) %s" % (lean_str(t.id), lean_str(q)))
+                return
+            if q is not None and isinstance(t, ast.Tuple) and all(isinstance(e, ast.Name) for e in t.elts):
+                out.append(".popleftLocal (.tup [%s]) %s" % (", ".join(lean_str(e.id) for e in t.elts), lean_str(q)))
+                return
+            # `x = <local>.<meth>(args…)`: a call on a value whose result is kept
+            if isinstance(t, ast.Name) and isinstance(v, ast.Call) and not v.keywords and isinstance(v.func, ast.Attribute) \
+                    and v.func.attr not in _PYIR_SUB_NOT_RECORDED and t.id not in self.match_vars \
+                    and not any(isinstance(a, ast.Starred) for a in v.args):
+                rc = self.recv_chain(v.func)
+                if rc is not None and rc[0] == "local" and rc[1] != "log" and rc[1] not in self.match_vars:
+                    pre = []
+                    args = self.args_with_hoist(v.args, pre)
+                    if pre:
+                        raise _Untranslatable("effectful argument of a call on a value: " + _pyir_src(v))
+                    out.append(".emitVTo %s (.var %s) %s %s" % (lean_str(t.id), lean_str(rc[1]), lean_str(rc[2]), args))
+                    if s in self.fn.body:
+                        self.assigned.add(t.id)
+                    return
+        super().stmt(s, out)
+
+
+def _pyir_sub_class(module_name, cls_name, outputs, methods):
+    mod = importlib.import_module(module_name)
+    klass = getattr(mod, cls_name)
+    kinds, funcs = {}, {}
+    for name, member in vars(klass).items():
+        f = member
+        kind = "plain"
+        if hasattr(f, "method") and callable(getattr(f, "method")):
+            kind = {"MethodicalInput": "input", "MethodicalState": "state", "MethodicalOutput": "output"}.get(
+                type(f).__name__, "other")
+            f = f.method
+        if not inspect.isfunction(f):
+            continue
+        kinds[name] = kind
+        try:
+            funcs[name] = ast.parse(textwrap.dedent(inspect.getsource(f))).body[0]
+        except Exception:  # pragma: no cover
+            pass
+    attr_kinds = {}
+    for init in _PYIR_INIT_METHODS:
+        fn = funcs.get(init)
+        if fn is None:
+            continue
+        for n in ast.walk(fn):
+            if isinstance(n, ast.Assign) and len(n.targets) == 1:
+                t, v = n.targets[0], n.value
+                if isinstance(t, ast.Attribute) and isinstance(t.value, ast.Name) and t.value.id == "self":
+                    if isinstance(v, ast.Dict) and not v.keys:
+                        attr_kinds[t.attr] = "dict"
+                    elif isinstance(v, ast.List) and not v.elts:
+                        attr_kinds[t.attr] = "list"
+                    elif isinstance(v, ast.Call) and isinstance(v.func, ast.Name) and not v.args \
+                            and v.func.id in ("set", "dict", "list", "deque"):
+                        attr_kinds[t.attr] = {"set": "set", "dict": "dict"}.get(v.func.id, "list")
+                    elif isinstance(v, ast.Call) and isinstance(v.func, ast.Name) and v.func.id == "defaultdict" \
+                            and len(v.args) == 1 and isinstance(v.args[0], ast.Name) and v.args[0].id == "deque" \
+                            and not v.keywords:
+                        attr_kinds[t.attr] = "ddeque"
+    data_attrs = set(attr_kinds)
+    todo = (sorted(n for n, k in kinds.items() if k == "output") if outputs else []) + list(methods)
+    done, bad, defaults = {}, {}, []
+    while todo:
+        name = todo.pop(0)
+        if name in done or name in bad:
+            continue
+        fn = funcs.get(name)
+        if fn is None:
+            bad[name] = "source not available"
+            continue
+        try:
+            tr = _PyIRSub(mod, klass, kinds, data_attrs, fn, attr_kinds)
+            tr.klass_funcs = funcs
+            body = tr.block(fn.body)
+            done[name] = (tr.params, body)
+            defaults += [("%s.%s.%s" % (cls_name, name, p), d) for p, d in tr.defaults]
+            for callee in sorted(tr.sibling_calls):
+                if callee not in done and callee not in bad:
+                    todo.append(callee)
+        except _Untranslatable as e:
+            bad[name] = str(e)
+    changed = True
+    while changed:
+        changed = False
+        for name in sorted(done):
+            for n in ast.walk(funcs[name]):
+                if isinstance(n, ast.Call) and isinstance(n.func, ast.Attribute) and isinstance(n.func.value, ast.Name) \
+                        and n.func.value.id == "self" and n.func.attr in bad and kinds.get(n.func.attr) == "plain" \
+                        and not (funcs[n.func.attr].args.kwarg or funcs[n.func.attr].args.vararg):
+                    bad[name] = "calls untranslatable self.%s" % n.func.attr
+                    del done[name]
+                    changed = True
+                    break
+            if changed:
+                break
+    return done, bad, defaults, kinds
+
+
+def extract_pyir_sub():
+    """Lean data: the bodies of the subchannel methods in the IR of WV/Model/PyIR.lean"""
+    L = ["import WV.Model.PyIR", "namespace WV.Gen.PyIRSub", "open WV.PyIR", ""]
+    all_done, all_bad, classes, all_defaults, outs = [], [], [], [], []
+    for module, cls, outputs, methods in PYIR_SUB_TARGETS:
+        try:
+            done, bad, defaults, kinds = _pyir_sub_class(module, cls, outputs, methods)
+        except Exception as e:
+            all_bad.append((cls, "class not translatable: %s" % type(e).__name__))
+            continue
+        cid = cls.lstrip("_")
+        classes.append((cls, cid, done))
+        all_defaults += defaults
+        if outputs:
+            outs += ["%s.%s" % (cls, n) for n in sorted(kinds) if kinds[n] == "output"]
+        for name in sorted(done):
+            params, body = done[name]
+            L.append("def %s : List String × List Stmt :=" % ident("m_%s_%s" % (cid, name)))
+            L.append("  ([%s]," % ", ".join(lean_str(p) for p in params))
+            L.append("   %s)" % body)
+            all_done.append((cls, cid, name))
+        for name in sorted(bad):
+            all_bad.append(("%s.%s" % (cls, name), bad[name]))
+    L.append("")
+    for cls, cid, done in classes:
+        L.append("def %s : MethodTable" % ident("tbl_" + cid))
+        for name in sorted(done):
+            L.append("  | %s => some %s" % (lean_str(name), ident("m_%s_%s" % (cid, name))))
+        L.append("  | _ => none")
+    L.append("")
+    L.append("def translated : List String := [%s]" % ", ".join(lean_str("%s.%s" % (c, n)) for c, _, n in all_done))
+    L.append("")
+    L.append("/-- methods with a construct outside the subset, and the construct -/")
+    L.append("def untranslatable : List (String × String) := [%s]" % ", ".join(
+        "(%s, %s)" % (lean_str(k), lean_str(v)) for k, v in all_bad))
+    L.append("")
+    L.append("/-- every `@m.output` of the machine classes (all of them must be in `translated` or `untranslatable`) -/")
+    L.append("def outputs : List String := [%s]" % ", ".join(lean_str(x) for x in outs))
+    L.append("")
+    L.append("/-- parameters with a default value (the bodies are translated with the parameter passed explicitly) -/")
+    L.append("def defaults : List (String × String) := [%s]" % ", ".join(
+        "(%s, %s)" % (lean_str(k), lean_str(v)) for k, v in all_defaults))
+    L.append("")
+    L.append("/-- the attrs classes of subchannel.py and their attributes in positional order (what `fieldAt` positions refer to) -/")
+    sub = importlib.import_module("wormhole._dilation.subchannel")
+    L.append("def attrsFields : List (String × List String) := [%s]" % ", ".join(
+        "(%s, [%s])" % (lean_str(k), ", ".join(lean_str(x) for x in f)) for k, f in _pyir_sub_attrs_classes(sub)))
+    L.append("end WV.Gen.PyIRSub")
+    return "\n".join(L) + "\n", len(all_done), all_bad
+# [deepSub] end -------------------------------------------------------------
+
+
+# [deepTr] begin ------------------------------------------------------------
+# PyIR for the transit `Connection` (transit.py): a third generated module, WV/Gen/PyIRTr.lean.  `_PyIRTr` only ADDS
+# cases to `_PyIRDil` (every override falls back to the base class).
+
+PYIR_TR_TARGETS = [
+    ("wormhole.transit", "Connection",
+     ["send_record", "_decrypt_record", "dataReceivedRECORDS", "recordReceived", "_deliverRecords", "receive_record",
+      "_writeToConsumer", "disconnectConsumer", "connectConsumer", "close", "connectionLost",
+      "_check_and_remove", "_dataReceived", "_negotiationSuccessful", "dataReceived", "startNegotiation",
+      "connectionMade", "timeoutConnection", "_cancel",
+      "pauseProducing", "resumeProducing", "stopProducing", "registerProducer", "unregisterProducer", "write",
+      "writeToFile", "describe"]),
+]
+
+
+def _pyir_tr_const_int(node):
+    """value of a constant int expression built from literals with + * ** (what CPython's compiler folds), or None"""
+    if isinstance(node, ast.Constant) and isinstance(node.value, int) and not isinstance(node.value, bool) \
+            and node.value >= 0:
+        return node.value
+    if isinstance(node, ast.BinOp) and isinstance(node.op, (ast.Add, ast.Mult, ast.Pow)):
+        a, b = _pyir_tr_const_int(node.left), _pyir_tr_const_int(node.right)
+        if a is None or b is None:
+            return None
+        if isinstance(node.op, ast.Add):
+            return a + b
+        if isinstance(node.op, ast.Mult):
+            return a * b
+        if b > 4096:
+            return None
+        return a ** b
+    return None
+
+
+class _PyIRTr(_PyIRDil):
+    def __init__(self, module, klass, kinds, data_attrs, fn, attr_kinds, box_attrs):
+        # a default value of a parameter only matters to callers that omit the argument; the interpreter's `callM`
+        # demands every argument, so the translated body is the body with all parameters given
+        saved = (fn.args.defaults, fn.args.kw_defaults)
+        fn.args.defaults, fn.args.kw_defaults = [], []
+        try:
+            super().__init__(module, klass, kinds, data_attrs, fn, attr_kinds)
+        finally:
+            fn.args.defaults, fn.args.kw_defaults = saved
+        self.box_attrs = box_attrs
+        self.handler_names = []     # names bound by the enclosing `except Exception as <name>` handlers
+
+    def is_box_call(self, n):
+        return (isinstance(n, ast.Call) and isinstance(n.func, ast.Attribute) and self.is_self_attr(n.func.value)
+                and n.func.value.attr in self.box_attrs and n.func.attr in ("encrypt", "decrypt") and not n.keywords
+                and not any(isinstance(a, ast.Starred) for a in n.args))
+
+    def collab_call(self, n):
+        if self.is_box_call(n):
+            return False           # a pure function of the ideal AEAD, not a recorded call
+        return super().collab_call(n)
+
+    def inherited_method(self, name):
+        return name not in self.kinds and callable(getattr(self.klass, name, None))
+
+    def fstring(self, n):
+        tmpl, args = [], []
+        for part in n.values:
+            if isinstance(part, ast.Constant):
+                tmpl.append(part.value.replace("{", "{{").replace("}", "}}"))
+            elif isinstance(part, ast.FormattedValue):
+                conv = {-1: "", 114: "!r", 115: "!s", 97: "!a"}[part.conversion]
+                spec = ""
+                if part.format_spec is not None:
+                    if not (isinstance(part.format_spec, ast.JoinedStr) and all(
+                            isinstance(v, ast.Constant) for v in part.format_spec.values)):
+                        raise _Untranslatable("f-string with a computed format spec")
+                    spec = ":" + "".join(v.value for v in part.format_spec.values)
+                tmpl.append("{" + conv + spec + "}")
+                args.append(part.value)
+            else:  # pragma: no cover
+                raise _Untranslatable("f-string part")
+        return "".join(tmpl), args
+
+    def expr(self, n):
+        k = _pyir_tr_const_int(n)
+        if k is not None and not isinstance(n, ast.Constant):
+            return "(.int %d)" % k
+        if isinstance(n, ast.Name) and n.id not in self.locals and n.id != "self":
+            v = getattr(self.module, n.id, None)
+            if isinstance(v, int) and not isinstance(v, bool) and v >= 0:
+                return "(.int %d)" % v           # a module-level int constant (TIMEOUT)
+        if isinstance(n, ast.Attribute) and isinstance(n.value, ast.Name) and n.value.id not in self.locals \
+                and n.value.id != "self" and inspect.isclass(getattr(self.module, n.value.id, None)):
+            v = getattr(getattr(self.module, n.value.id), n.attr, None)
+            if isinstance(v, int) and not isinstance(v, bool) and v >= 0:
+                return "(.int %d)" % v           # a class-level int constant (SecretBox.NONCE_SIZE)
+        if isinstance(n, ast.Subscript) and isinstance(n.slice, ast.Slice) and n.slice.step is None:
+            lo = "none" if n.slice.lower is None else "(some %s)" % self.expr(n.slice.lower)
+            hi = "none" if n.slice.upper is None else "(some %s)" % self.expr(n.slice.upper)
+            return "(.sliceT %s %s %s)" % (self.expr(n.value), lo, hi)
+        if isinstance(n, ast.Compare) and len(n.ops) == 1 and isinstance(n.ops[0], ast.GtE):
+            return "(.geT %s %s)" % (self.expr(n.left), self.expr(n.comparators[0]))
+        if isinstance(n, ast.JoinedStr):
+            tmpl, args = self.fstring(n)
+            return "(.call %s %s)" % (lean_str('f"' + tmpl + '"'), self.exprs(args))
+        return super().expr(n)
+
+    def call_expr(self, n):
+        f = n.func
+        plain = not n.keywords and not any(isinstance(a, ast.Starred) for a in n.args)
+        if plain and isinstance(f, ast.Name) and f.id not in self.locals:
+            # int(hexlify(X), 16): big-endian decoding
+            if f.id == "int" and len(n.args) == 2 and isinstance(n.args[1], ast.Constant) and n.args[1].value == 16 \
+                    and isinstance(n.args[0], ast.Call) and isinstance(n.args[0].func, ast.Name) \
+                    and n.args[0].func.id == "hexlify" and "hexlify" not in self.locals \
+                    and len(n.args[0].args) == 1 and not n.args[0].keywords:
+                return "(.call \"be_decode\" %s)" % self.exprs(n.args[0].args)
+            # unhexlify(f"{E:0Nx}"): big-endian encoding into N/2 bytes
+            if f.id == "unhexlify" and len(n.args) == 1 and isinstance(n.args[0], ast.JoinedStr):
+                tmpl, args = self.fstring(n.args[0])
+                m = re.match(r"^\{:0(\d+)x\}$", tmpl)
+                if m and len(args) == 1 and int(m.group(1)) % 2 == 0:
+                    return "(.call \"be_fixed\" [%s, (.int %d)])" % (self.expr(args[0]), int(m.group(1)) // 2)
+        if plain and isinstance(f, ast.Attribute) and f.attr == "startswith" and len(n.args) == 1 \
+                and (self.is_self_attr(f.value) or (isinstance(f.value, ast.Name) and f.value.id in self.locals)):
+            return "(.startswithT %s %s)" % (self.expr(f.value), self.expr(n.args[0]))
+        if self.is_box_call(n):
+            return "(.call %s %s)" % (lean_str("SecretBox." + f.attr), self.exprs([f.value] + list(n.args)))
+        return super().call_expr(n)
+
+    def call_stmt(self, n, target, out):
+        f = n.func
+        if self.is_self_attr(f) and self.inherited_method(f.attr) and target is None and not n.keywords \
+                and not any(isinstance(a, ast.Starred) for a in n.args):
+            # a method inherited from a framework base class (`setTimeout` of TimeoutMixin): recorded, not interpreted
+            out.append(".emitG \"self\" %s %s" % (lean_str(f.attr), self.exprs(n.args)))
+            return
+        if isinstance(f, ast.Attribute) and self.is_self_attr(f.value) and f.value.attr not in self.data_attrs \
+                and target is not None and not n.keywords and not self.is_box_call(n) \
+                and not any(isinstance(a, ast.Starred) for a in n.args):
+            # `x = self.<collab>.<meth>(…)`: recorded, value from Env.retOfT
+            out.append(".emitToFT %s %s %s %s" % (lean_str(target), lean_str(f.value.attr), lean_str(f.attr), self.exprs(n.args)))
+            return
+        if isinstance(f, ast.Attribute) and self.is_self_attr(f.value) and f.value.attr not in self.data_attrs \
+                and target is None and not n.keywords and not self.is_box_call(n) \
+                and not any(isinstance(a, ast.Starred) for a in n.args) \
+                and any(isinstance(a, ast.Call) and self.collab_call(a) for a in n.args):
+            # `self.<X>.<meth>(self.<Y>.<m2>(), …)`: CPython looks `self.<X>.<meth>` up first (None -> AttributeError),
+            # then evaluates the arguments from left to right, then makes the call
+            out.append(".ite (.isNone (.attr %s)) [.raise \"AttributeError\" []] []" % lean_str(f.value.attr))
+            args = self.hoist_collab_args(list(n.args), out)
+            out.append(".emitA %s %s %s" % (lean_str(f.value.attr), lean_str(f.attr), self.exprs(args)))
+            return
+        super().call_stmt(n, target, out)
+
+    def sibling_call(self, n):
+        return (isinstance(n, ast.Call) and self.is_self_attr(n.func) and self.kinds.get(n.func.attr) == "plain"
+                and not n.keywords)
+
+    def hoist_collab_args(self, args, out):
+        """collaborator calls among the arguments become `emitToFT` temporaries in front of the statement — only if
+        everything evaluated before them is a constant or a local; returns the argument nodes with the calls replaced"""
+        res = []
+        for i, a in enumerate(args):
+            if isinstance(a, ast.Call) and self.collab_call(a):
+                if not all(isinstance(b, (ast.Constant, ast.Name)) for b in args[:i]):
+                    raise _Untranslatable("effectful argument after a non-trivial one: " + _pyir_src(a))
+                tmp = "$%d" % self.ntemp
+                self.ntemp += 1
+                self.locals.add(tmp)
+                self.call_stmt(a, tmp, out)
+                res.append(ast.Name(id=tmp, ctx=ast.Load()))
+            else:
+                res.append(a)
+        return res
+
+    def args_with_hoist(self, args, out):
+        return super().args_with_hoist(self.hoist_collab_args(list(args), out), out)
+
+    def project_class(self, t):
+        import builtins
+        if isinstance(t, ast.Name) and t.id not in self.locals and getattr(self.module, t.id, None) is None \
+                and inspect.isclass(getattr(builtins, t.id, None)) and issubclass(getattr(builtins, t.id), BaseException):
+            return t.id           # a builtin exception class, matched by name like the project's classes
+        return super().project_class(t)
+
+    def stmt(self, s, out):
+        # `a, self.b = e1, e2`: the right-hand sides first (left to right), then the targets (left to right)
+        if isinstance(s, ast.Assign) and len(s.targets) == 1 and isinstance(s.targets[0], ast.Tuple) \
+                and isinstance(s.value, ast.Tuple) and len(s.targets[0].elts) == len(s.value.elts) \
+                and all(isinstance(t, ast.Name) or self.is_self_attr(t) for t in s.targets[0].elts):
+            tmps = []
+            for v in s.value.elts:
+                tmp = "$%d" % self.ntemp
+                self.ntemp += 1
+                self.locals.add(tmp)
+                out.append(".assign %s %s" % (lean_str(tmp), self.expr(v)))
+                tmps.append(tmp)
+            for t, tmp in zip(s.targets[0].elts, tmps):
+                if isinstance(t, ast.Name):
+                    out.append(".assign %s (.var %s)" % (lean_str(t.id), lean_str(tmp)))
+                else:
+                    out.append(".setAttr %s (.var %s)" % (lean_str(t.attr), lean_str(tmp)))
+            return
+        # `x = self.<box>.decrypt(e)`, `self.<a> = SecretBox(k)`: pure
+        if isinstance(s, ast.Assign) and len(s.targets) == 1 and isinstance(s.targets[0], ast.Name) and self.is_box_call(s.value):
+            out.append(".assign %s %s" % (lean_str(s.targets[0].id), self.call_expr(s.value)))
+            return
+        # `return self.<sibling>(…)`
+        if isinstance(s, ast.Return) and s.value is not None and self.sibling_call(s.value):
+            self.locals.add("$ret")
+            self.call_stmt(s.value, "$ret", out)
+            out.append(".ret (some (.var \"$ret\"))")
+            return
+        # `if [not] self.<sibling>(…):` — the call is made first, its value tested
+        if isinstance(s, ast.If):
+            t = s.test
+            neg = isinstance(t, ast.UnaryOp) and isinstance(t.op, ast.Not)
+            c = t.operand if neg else t
+            if self.sibling_call(c):
+                tmp = "$%d" % self.ntemp
+                self.ntemp += 1
+                self.locals.add(tmp)
+                self.call_stmt(c, tmp, out)
+                cond = "(.not (.var %s))" % lean_str(tmp) if neg else "(.var %s)" % lean_str(tmp)
+                out.append(".ite %s %s %s" % (cond, self.block(s.body), self.block(s.orelse)))
+                return
+        # `self.<a> = self.<collab>.<meth>(…)` / `self.<a> = SecretBox(k)` are handled by the base class
+        # `try: … except Exception [as e]: …` with a bare `raise` inside
+        if isinstance(s, ast.Try) and not s.orelse and not s.finalbody and len(s.handlers) == 1 \
+                and isinstance(s.handlers[0].type, ast.Name) and s.handlers[0].type.id == "Exception":
+            h = s.handlers[0]
+            if h.name is not None:
+                for b in h.body:
+                    for x in ast.walk(b):
+                        if isinstance(x, ast.Name) and x.id == h.name and isinstance(x.ctx, (ast.Store, ast.Del)):
+                            raise _Untranslatable("handler re-binds its exception name")
+            body = self.block(s.body)
+            self.handler_names.append(h.name)
+            try:
+                hb = self.block(h.body)
+            finally:
+                self.handler_names.pop()
+            out.append(".tryCatchAllT %s %s %s" % (body, _lean_opt_str(h.name), hb))
+            return
+        if isinstance(s, ast.Raise) and s.exc is None and s.cause is None:
+            if self.handler_names and self.handler_names[-1] is not None:
+                out.append(".raiseVT (.var %s)" % lean_str(self.handler_names[-1]))
+                return
+            raise _Untranslatable("bare raise outside `except Exception as <name>`")
+        if isinstance(s, ast.Raise) and s.cause is None and self.is_self_attr(s.exc):
+            out.append(".raiseVT %s" % self.expr(s.exc))
+            return
+        super().stmt(s, out)
+
+
+def _pyir_tr_class(module_name, cls_name, methods):
+    mod = importlib.import_module(module_name)
+    klass = getattr(mod, cls_name)
+    kinds, funcs = {}, {}
+    for name, member in vars(klass).items():
+        if not inspect.isfunction(member):
+            continue
+        kinds[name] = "plain"
+        try:
+            funcs[name] = ast.parse(textwrap.dedent(inspect.getsource(member))).body[0]
+        except Exception:  # pragma: no cover
+            pass
+    attr_kinds, box_attrs = {}, set()
+    for name, fn in funcs.items():
+        for n in ast.walk(fn):
+            if isinstance(n, ast.Assign) and len(n.targets) == 1:
+                t, v = n.targets[0], n.value
+                if isinstance(t, ast.Attribute) and isinstance(t.value, ast.Name) and t.value.id == "self":
+                    if name in _PYIR_INIT_METHODS:
+                        if isinstance(v, ast.Dict) and not v.keys:
+                            attr_kinds[t.attr] = "dict"
+                        elif isinstance(v, ast.List) and not v.elts:
+                            attr_kinds[t.attr] = "list"
+                        elif isinstance(v, ast.Call) and isinstance(v.func, ast.Name) and not v.args \
+                                and v.func.id in ("set", "dict", "list", "deque"):
+                            attr_kinds[t.attr] = {"set": "set", "dict": "dict"}.get(v.func.id, "list")
+                    if isinstance(v, ast.Call) and isinstance(v.func, ast.Name) and v.func.id == "SecretBox":
+                        box_attrs.add(t.attr)
+    data_attrs = set(attr_kinds)
+    todo = list(methods)
+    done, bad = {}, {}
+    while todo:
+        name = todo.pop(0)
+        if name in done or name in bad:
+            continue
+        fn = funcs.get(name)
+        if fn is None:
+            bad[name] = "source not available"
+            continue
+        try:
+            tr = _PyIRTr(mod, klass, kinds, data_attrs, fn, attr_kinds, box_attrs)
+            tr.klass_funcs = funcs
+            body = tr.block(fn.body)
+            done[name] = (tr.params, body)
+            for callee in sorted(tr.sibling_calls):
+                if callee not in done and callee not in bad:
+                    todo.append(callee)
+        except _Untranslatable as e:
+            bad[name] = str(e)
+    changed = True
+    while changed:
+        changed = False
+        for name in sorted(done):
+            for n in ast.walk(funcs[name]):
+                if isinstance(n, ast.Call) and isinstance(n.func, ast.Attribute) and isinstance(n.func.value, ast.Name) \
+                        and n.func.value.id == "self" and n.func.attr in bad:
+                    bad[name] = "calls untranslatable self.%s" % n.func.attr
+                    del done[name]
+                    changed = True
+                    break
+            if changed:
+                break
+    return done, bad
+
+
+def extract_pyir_tr():
+    """Lean data: the method bodies of transit.Connection in the IR of WV/Model/PyIR.lean"""
+    L = ["import WV.Model.PyIR", "namespace WV.Gen.PyIRTr", "open WV.PyIR", ""]
+    all_done, all_bad, classes = [], [], []
+    for module, cls, methods in PYIR_TR_TARGETS:
+        try:
+            done, bad = _pyir_tr_class(module, cls, methods)
+        except Exception as e:
+            all_bad.append((cls, "class not translatable: %s" % type(e).__name__))
+            continue
+        cid = cls.lstrip("_")
+        classes.append((cls, cid, done))
+        for name in sorted(done):
+            params, body = done[name]
+            L.append("def %s : List String × List Stmt :=" % ident("m_%s_%s" % (cid, name)))
+            L.append("  ([%s]," % ", ".join(lean_str(p) for p in params))
+            L.append("   %s)" % body)
+            all_done.append((cls, cid, name))
+        for name in sorted(bad):
+            all_bad.append(("%s.%s" % (cls, name), bad[name]))
+    L.append("")
+    for cls, cid, done in classes:
+        L.append("def %s : MethodTable" % ident("tbl_" + cid))
+        for name in sorted(done):
+            L.append("  | %s => some %s" % (lean_str(name), ident("m_%s_%s" % (cid, name))))
+        L.append("  | _ => none")
+    L.append("")
+    L.append("def translated : List String := [%s]" % ", ".join(lean_str("%s.%s" % (c, n)) for c, _, n in all_done))
+    L.append("")
+    L.append("/-- methods with a construct outside the subset, and the construct -/")
+    L.append("def untranslatable : List (String × String) := [%s]" % ", ".join(
+        "(%s, %s)" % (lean_str(k), lean_str(v)) for k, v in all_bad))
+    L.append("end WV.Gen.PyIRTr")
+    return "\n".join(L) + "\n", len(all_done), all_bad
+# [deepTr] end --------------------------------------------------------------
+
 
 BASELINE = os.path.join(HERE, "gen_baseline")
 
@@ -3482,6 +5768,66 @@ def main():
     section("PyIRDil", pyir_dil)
     section("C13Wire", lambda: hdr + extract_c13_wire())
     # [dil] end
+
+    # [deepConn] begin
+    def pyir_conn():
+        text, n, bad = extract_pyir_conn()
+        state["pyir_conn_n"], state["pyir_conn_bad"] = n, bad
+        return hdr + text
+    section("PyIRConn", pyir_conn)
+    # [deepConn] end
+
+    # [deepL2] begin
+    def pyir_l2():
+        text, n, bad = extract_pyir_l2()
+        state["pyir_l2_n"], state["pyir_l2_bad"] = n, bad
+        return hdr + text
+    section("PyIRL2", pyir_l2)
+    # [deepL2] end
+
+    # [deepMgr] begin
+    def pyir_mgr():
+        text, n, bad = extract_pyir_mgr()
+        state["pyir_mgr_n"], state["pyir_mgr_bad"] = n, bad
+        return hdr + text
+    section("PyIRMgr", pyir_mgr)
+    # [deepMgr] end
+    # [deepObs] begin
+    def pyir_obs():
+        text, n, bad = extract_pyir_obs()
+        state["pyir_obs_n"], state["pyir_obs_bad"] = n, bad
+        return hdr + text
+    section("PyIRObs", pyir_obs)
+    # [deepObs] end
+    # [deepRC] begin
+    def pyir_rc():
+        text, n, bad = extract_pyir_rc()
+        state["pyir_rc_n"], state["pyir_rc_bad"] = n, bad
+        return hdr + text
+    section("PyIRRC", pyir_rc)
+    # [deepRC] end
+    # [deepSub] begin
+    def pyir_sub():
+        text, n, bad = extract_pyir_sub()
+        state["pyir_sub_n"], state["pyir_sub_bad"] = n, bad
+        return hdr + text
+    section("PyIRSub", pyir_sub)
+    # [deepSub] end
+
+    # [deepTr] begin
+    def pyir_tr():
+        text, n, bad = extract_pyir_tr()
+        state["pyir_tr_n"], state["pyir_tr_bad"] = n, bad
+        return hdr + text
+    section("PyIRTr", pyir_tr)
+    # [deepTr] end
+    # [deepDil2] begin
+    def pyir_dil2():
+        text, n, bad = extract_pyir_dil2()
+        state["pyir_dil2_n"], state["pyir_dil2_bad"] = n, bad
+        return hdr + text
+    section("PyIRDil2", pyir_dil2)
+    # [deepDil2] end
     L = [hdr + "namespace WV.Gen.Failed",
          "/-- generated modules the translator could NOT regenerate from the working tree in this run (they still hold their",
          "    previous / baseline text), with the reason -/",
@@ -3499,6 +5845,22 @@ def main():
         "pyir_untranslatable": [k for k, _ in state.get("pyir_bad", [])],
         "pyir_dil_methods": state.get("pyir_dil_n", 0),                                   # [dil]
         "pyir_dil_untranslatable": [k for k, _ in state.get("pyir_dil_bad", [])],        # [dil]
+        "pyir_conn_methods": state.get("pyir_conn_n", 0),                                 # [deepConn]
+        "pyir_conn_untranslatable": [k for k, _ in state.get("pyir_conn_bad", [])],      # [deepConn]
+        "pyir_l2_methods": state.get("pyir_l2_n", 0),                                     # [deepL2]
+        "pyir_l2_untranslatable": [k for k, _ in state.get("pyir_l2_bad", [])],          # [deepL2]
+        "pyir_mgr_methods": state.get("pyir_mgr_n", 0),                                   # [deepMgr]
+        "pyir_mgr_untranslatable": [k for k, _ in state.get("pyir_mgr_bad", [])],        # [deepMgr]
+        "pyir_obs_methods": state.get("pyir_obs_n", 0),                                   # [deepObs]
+        "pyir_obs_untranslatable": [k for k, _ in state.get("pyir_obs_bad", [])],        # [deepObs]
+        "pyir_rc_methods": state.get("pyir_rc_n", 0),                                     # [deepRC]
+        "pyir_rc_untranslatable": [k for k, _ in state.get("pyir_rc_bad", [])],          # [deepRC]
+        "pyir_sub_methods": state.get("pyir_sub_n", 0),                                   # [deepSub]
+        "pyir_sub_untranslatable": [k for k, _ in state.get("pyir_sub_bad", [])],        # [deepSub]
+        "pyir_tr_methods": state.get("pyir_tr_n", 0),                                     # [deepTr]
+        "pyir_tr_untranslatable": [k for k, _ in state.get("pyir_tr_bad", [])],          # [deepTr]
+        "pyir_dil2_methods": state.get("pyir_dil2_n", 0),                                 # [deepDil2]
+        "pyir_dil2_untranslatable": [k for k, _ in state.get("pyir_dil2_bad", [])],      # [deepDil2]
         "failed_sections": [[n, w] for n, w, _ in failed],
     }
     write_if_changed(os.path.join(GEN, "summary.json"), json.dumps(summary, indent=1, sort_keys=True) + "\n")
